@@ -1,1041 +1,837 @@
 /-
 C05 — BMS writing produces a file that denotes the in-memory chart.
-Property theorems about the executable writer model (`Reamber/Model/BMS.lean`: `write`, `writeCells`,
-`linesOfCells`, `fillSeq`, `newDens`, on top of K1's `snaps` and `findLcm`), tied to reamber/bms/BMSMap.py,
-reamber/algorithms/timing/utils/find_lcm.py by the correspondence check and the generated constants, against
-`Spec/BMS.lean` (`denote`, `lineValid`).
 
-Full statement aimed at (kept visible; the theorems below are its proved parts):
+Main theorem: `bms_write_read` (end of this file) —
 
-  ∀ layout chart (4/4 tempo points on measure lines, first at 0, tempos with ≤ 3 decimals, columns of the layout,
-    no two objects on one (lane, slot), nothing inside a hold of its lane, measures ≤ 999),
-    ∃ lines d, write defaultGrid layout "01" chart = .ok lines ∧ denote (bookLayout layout) lines = some d ∧
-      d.hits ≈ chart.hits ∧ d.holds ≈ chart.holds ∧ d.tempo ≈ chart.bpms   (= on the snap grid, ≤ 1/192 beat off it) ∧
-      ∀ l ∈ lines, isDataLine l → lineValid l
+  ∀ tempo list cs (well-formed 4/4 points, strictly ascending, first at measure 0 beat 0, grid-compatible on the
+    grid of 96), layout (LayoutOK, time-signature channel apart: `layouts_ok`, `layouts_timeSig` for the five
+    generated ones), chart c whose tempo rows are ANY arrangement of `tmOf 0 cs` (first tempo point at time 0: ¬D35),
+    tempos with ≤ 3 decimals (¬D06), rows in measures 000–999 (¬D36) with no two objects on one (channel, slot),
+    every lane's hits and holds following one another in time (¬D37), header domain `HeaderOK`:
+    ∃ lines d, write defaultGrid layout dflt c = .ok lines ∧ denote layout lines = some d ∧
+      d.tempo = header tempo :: cs ∧ d.shits / d.sholds = per lane, one hit per hit and one hold per hold, at
+      positions whose by-the-book times are the in-memory times exactly on the snap grid and within 1/192 beat
+      (at the tempo in force) otherwise.
 
-Proved: `findLcm_dvd` (invariant of the double loop), `newDens_dvd`, `slot_exact` (re-slotting keeps the position),
-`slot_roundtrip` (a written slot denotes exactly the row's snap), `no_merge_no_drop` (line level: every cell's
-id sits on its slot, every other slot is `00`, the line has `den` slots), `line_valid`, `base36_roundtrip`,
-`writer_consts_tie`, `bpm_3f_counterexample` (D06), and towards `denote ∘ write = id`:
-* `lineKeys_cover` / `lineKeys_unique` — every cell is written in exactly one output line;
-* `written_line_denotes` (with `classify_rendered`) — the denotation's lexer reads a rendered line back as measure,
-  channel and exactly the line's non-`00` cells at beat `4·idx/den`;
-* `written_objects` — the per-channel union: over all lines of `linesOfCells cells`, the by-the-book objects of a
-  channel are exactly the non-`00` cells of that channel at measure, beat `4·idx/den`, with their ids;
-* `pairLane_atoms` — by-the-book LNOBJ pairing of a written lane: when the lane's objects in position order are
-  the chart's hits and head/LNOBJ pairs one after the other (nothing inside a hold: ¬D37), the pairing returns
-  exactly those hits and holds;
-* `write_positions` — `TimingMap.snaps` as the model runs it: the by-the-book time of every written position is
-  the in-memory time exactly on the snap grid and within 1/192 beat (at the tempo in force) otherwise (through
-  C10's `timeAtAux_snapAtAux` / `_err`, `snap_err_default`, `bcsOfBco_rederive`, `stableArgsort_sortsAscR`);
-* `written_slot_time` — the two composed: the slot the writer fills for a time denotes that time.
-* `written_tempo_list` (with `snapAtAux_at_change`, `tempo_rows_positions`, `rows_changes_perm`, `dict_of_distinct`,
-  `base36_ids_nodup`) — the tempo objects of the written file, read back through the `#BPMxx` table, are the
-  in-memory tempo list, for ANY order of the tempo rows;
-* `parseFloat_showFixed`, `parseFloat_showExact`, `exbpm_table_readback` — header numbers read back:
-  `float(f"{q:.3f}") = roundDec 3 q` (= `q` with ≤ 3 decimals, ¬D06), `float(str(bpm)) = bpm`, and
-  `_read_file_header`'s loop over the written `#BPMxx` lines builds `base36(i+1) ↦ roundDec 3 bpm_i`;
-* `written_lane_sorted` — any file order of a lane's objects sorts to the position-ordered sequence;
-* `bms_write_read_partial` — the assembled statement at the level of objects: K1 as run + sorting + LNOBJ pairing:
-  the by-the-book reading of a lane of the written file returns one hit per hit, one hold per hold, in the lane's
-  column, at times exact on the grid and within 1/192 beat off it.  Its docstring names exactly what is still
-  outside: `hch` (the file's lines give the channel an *arrangement* of these objects — proved as a membership
-  equivalence in `written_objects`, not as a permutation through `writeCells`; header lines not shown to add no data
-  lines), `hstrict` (needs monotonicity of snapping), and threading the header / tempo read-back through `denote`.
+`bms_write_read_nonvacuous` instantiates every hypothesis on a concrete chart.  Pieces (this file): the file's lines
+as a permutation of the cells' objects (`written_objects_perm`, `written_file_objects`, header lines contribute no data
+lines: `foldlE_docStep_header`), pairwise different positions from monotone snapping (`posFn_mono`,
+`positions_strict`; K1: `Lemmas/SnapMono.lean`), the writer's cells (`cells_ok`, C15's `writeCells_eq`,
+`cells_objects`), lanes (`lane_rows_perm`, `written_lane_denotes`), tempo objects (`written_tempo_denotes`), header
+(`Lemmas/BMSHeader.lean`: `written_header_read`), `rows_normalised`.
+
+The earlier property theorems live in `Reamber/Lemmas/BMSWrite.lean` (same namespace and names as before:
+`findLcm_dvd`, `newDens_dvd`, `slot_exact`, `slot_roundtrip`, `no_merge_no_drop`, `line_valid`, `lineKeys_cover`,
+`written_line_denotes`, `written_objects`, `pairLane_atoms`, `write_positions`, `written_tempo_list`,
+`exbpm_table_readback`, `parseFloat_showFixed`, `bms_write_read_partial`, … — see its header for the full list and for
+what each says); they were moved there so that C15's `Lemmas/PermInvBMS.lean` (`posFn`, `snaps_pointwise`,
+`cells_objects`), which builds on them, can be used here.
+
+Still outside `bms_write_read` (stated, not hidden): samples — the hit's sample is what the file's `#WAV` table gives
+the written id (`so (sampleId …)`), not shown equal to the in-memory sample (unknown samples are written under the
+default id); `d.header`'s title/artist/version fields; metronome ≠ 4 (channel-02 lines); the byte lexer is shared by
+`write`'s reader side and `denote`.
 -/
-import Reamber.Lemmas.FindLcm
-import Reamber.Lemmas.BMSLines
-import Reamber.Lemmas.BMSRender
-import Reamber.Lemmas.BMSRead
-import Reamber.Lemmas.BMSTempo
-import Reamber.Lemmas.BMSPair
-import Reamber.Lemmas.BMSWriteTempo
-import Reamber.Lemmas.BMSNum
-import Reamber.Props.C10
-import Reamber.Model.BMS
-import Reamber.Spec.BMS
-import Mathlib.Tactic.Ring
-import Mathlib.Tactic.FieldSimp
-import Mathlib.Tactic.Linarith
-import Mathlib.Algebra.Order.Field.Rat
+import Reamber.Lemmas.BMSWrite
+import Reamber.Lemmas.PermInvBMS
+import Reamber.Lemmas.SnapMono
+import Reamber.Lemmas.BMSHeader
+import Reamber.Props.C04
 
 namespace Reamber.BMS
 
-open Reamber.Timing
+open Reamber.Timing Reamber.PermInv
 
-/-- Tie to the source: the constants the writer model uses are the ones in `BMSMap.py` (threshold passed to
-`find_lcm`, decimals of the `#BPMxx` table, the bound of the `assert`, defaults of `write`). -/
-theorem writer_consts_tie :
-    Generated.BMS.lcmThreshold = 100 ∧ Generated.BMS.exbpmDecimals = 3 ∧ Generated.BMS.maxBpms = 35 * 36 + 35 ∧
-    Generated.BMS.noSampleDefault = "01" ∧ Generated.BMS.defaultLnEnd = "ZZ" ∧ Generated.BMS.defaultLayoutWrite = "BME" ∧
-    Generated.BMS.defaultMetronome = 4 := by
-  decide +kernel
+/-! ### (1) the file's lines give every channel an ARRANGEMENT of its cells' objects -/
 
-/-! ### ids -/
+/-- the by-the-book object of a written cell -/
+def objOfCell (c : WCell) : Obj :=
+  ⟨⟨(c.measure.toNat : Int), 4 * ((c.idx : Nat) : Rat) / ((c.den : Nat) : Rat), none⟩, c.value⟩
 
-def unb36Digit (c : Char) : Nat := if isDigit c then c.toNat - 48 else c.toNat - 55
+def cellShown (ch : Bytes) (c : WCell) : Bool := decide (c.channel = ch) && decide (c.value ≠ ['0', '0'])
 
-def unb36 (b : Bytes) : Nat :=
-  match b with
-  | [x, y] => 36 * unb36Digit x + unb36Digit y
-  | _ => 0
-
-/-- **Ids of tempo points**: for `e ≤ 1295` the id is two base-36 characters that decode back to `e` — so the
-ids of up to 1295 tempo points are pairwise distinct, and none of them is `00`. -/
-theorem base36_roundtrip :
-    ∀ e, e < 1296 → unb36 (base36 e) = e ∧ (base36 e).length = 2 ∧ (base36 e).all isB36 = true ∧ (0 < e → base36 e ≠ ['0', '0']) := by
-  decide +kernel
-
-/-! ### slots -/
-
-/-- **Re-slotting is exact**: when the row's denominator divides its new denominator (what `findLcm_dvd`
-guarantees), `int(num · new_den / den)` is an exact quotient — the object keeps its position `num/den`, and
-stays inside the line. -/
-theorem slot_exact (s : WSlot) (nd : Nat) (hden : 0 < s.den) (hdvd : s.den ∣ nd) :
-    (cellOf s nd).idx * s.den = s.num * nd ∧ (s.num < s.den → 0 < nd → (cellOf s nd).idx < nd) := by
-  obtain ⟨k, rfl⟩ := hdvd
-  have hd : ((s.den : Nat) : Rat) ≠ 0 := by exact_mod_cast Nat.pos_iff_ne_zero.mp hden
-  have hq : (((s.num * (s.den * k) : Nat) : Rat) / ((s.den : Nat) : Rat)) = (((s.num * k : Nat) : Int) : Rat) := by
-    push_cast
-    field_simp
-  have hidx : (cellOf s (s.den * k)).idx = s.num * k := by
-    simp only [cellOf, hq, Rat.floor_intCast]
-    rfl
-  constructor
-  · rw [hidx]; ring
-  · intro hlt hnd
-    rw [hidx]
-    have hk : 0 < k := by
-      rcases Nat.eq_zero_or_pos k with hk | hk
-      · subst hk; simp at hnd
-      · exact hk
-    exact Nat.mul_lt_mul_of_pos_right hlt hk
-
-/-! ### new denominators -/
-
-theorem zipIdxFrom_fst_lt {α} (l : List α) : ∀ n, ∀ q ∈ zipIdxFrom n l, n ≤ q.1 := by
+/-- keys that name pairwise different lines and cover the cells split the cells into their lines -/
+theorem partition_perm (ks : List WCell) (hpw : ks.Pairwise (fun a b => sameLine a b = false)) :
+    ∀ (l : List WCell), (∀ c ∈ l, ∃ k ∈ ks, sameLine k c = true) →
+      l.Perm (ks.flatMap (fun k => l.filter (sameLine k))) := by
+  intro l
   induction l with
-  | nil => intro n q hq; cases hq
-  | cons a t ih =>
-    intro n q hq
-    simp only [zipIdxFrom, List.mem_cons] at hq
-    rcases hq with rfl | hq
-    · exact Nat.le_refl _
-    · exact Nat.le_of_succ_le (ih (n + 1) q hq)
+  | nil => intro _; simp
+  | cons c t ih =>
+    intro hcov
+    have ih' := ih (fun x hx => hcov x (by simp [hx]))
+    obtain ⟨k0, hk0, hs0⟩ := hcov c (by simp)
+    -- exactly the line of `k0` receives `c`
+    have huniq : ∀ k ∈ ks, k ≠ k0 → sameLine k c = false := by
+      intro k hk hne
+      cases hsk : sameLine k c with
+      | false => rfl
+      | true =>
+        exfalso
+        have hkk : sameLine k k0 = true := sameLine_trans hsk (sameLine_symm hs0)
+        have key : ∀ (l : List WCell), l.Pairwise (fun a b => sameLine a b = false) → k ∈ l → k0 ∈ l → False := by
+          intro l
+          induction l with
+          | nil => intro _ h1; cases h1
+          | cons x r ihr =>
+            intro hp h1 h2
+            have hp' := List.pairwise_cons.mp hp
+            rcases List.mem_cons.mp h1 with e1 | h1'
+            · rcases List.mem_cons.mp h2 with e2 | h2'
+              · exact hne (e1.trans e2.symm)
+              · have := hp'.1 k0 h2'; rw [← e1, hkk] at this; cases this
+            · rcases List.mem_cons.mp h2 with e2 | h2'
+              · have := hp'.1 k h1'; rw [← e2, sameLine_symm hkk] at this; cases this
+              · exact ihr hp'.2 h1' h2'
+        exact key ks hpw hk hk0
+    obtain ⟨A, B, hAB⟩ := List.append_of_mem hk0
+    have hA : ∀ k ∈ A, sameLine k c = false := by
+      intro k hk
+      apply huniq k (by rw [hAB]; simp [hk])
+      intro e
+      rw [hAB] at hpw
+      have := (List.pairwise_append.mp hpw).2.2 k hk k0 (by simp)
+      rw [e, sameLine_refl] at this; cases this
+    have hB : ∀ k ∈ B, sameLine k c = false := by
+      intro k hk
+      apply huniq k (by rw [hAB]; simp [hk])
+      intro e
+      rw [hAB] at hpw
+      have := (List.pairwise_cons.mp (List.pairwise_append.mp hpw).2.1).1 k hk
+      rw [e, sameLine_refl] at this; cases this
+    have eA : A.flatMap (fun k => (c :: t).filter (sameLine k)) = A.flatMap (fun k => t.filter (sameLine k)) := by
+      apply flatMap_congr'
+      intro k hk; simp [List.filter_cons, hA k hk]
+    have eB : B.flatMap (fun k => (c :: t).filter (sameLine k)) = B.flatMap (fun k => t.filter (sameLine k)) := by
+      apply flatMap_congr'
+      intro k hk; simp [List.filter_cons, hB k hk]
+    rw [hAB] at ih' ⊢
+    simp only [List.flatMap_append, List.flatMap_cons, eA, eB] at ih' ⊢
+    simp only [List.filter_cons, hs0, if_true]
+    refine (List.Perm.cons c ih').trans ?_
+    exact List.perm_middle.symm
 
-theorem zipIdxFrom_nodup {α} (l : List α) : ∀ n, (zipIdxFrom n l).Pairwise (fun a b => a.1 ≠ b.1) := by
+theorem objsOfPairs_sorted (m n : Nat) (hn : 0 < n) : ∀ (l : List Bytes) (k : Nat),
+    ((zipIdxFrom k l).filterMap (fun p =>
+      if p.2 = ['0', '0'] then none
+      else some (⟨⟨(m : Int), 4 * ((p.1 : Nat) : Rat) / ((n : Nat) : Rat), none⟩, p.2⟩ : Obj))).Pairwise
+      (fun a b => a.snap.beat < b.snap.beat) ∧
+    ∀ o ∈ (zipIdxFrom k l).filterMap (fun p =>
+      if p.2 = ['0', '0'] then none
+      else some (⟨⟨(m : Int), 4 * ((p.1 : Nat) : Rat) / ((n : Nat) : Rat), none⟩, p.2⟩ : Obj)),
+      4 * ((k : Nat) : Rat) / ((n : Nat) : Rat) ≤ o.snap.beat := by
+  intro l
+  have hnq : (0 : Rat) < ((n : Nat) : Rat) := by exact_mod_cast hn
   induction l with
-  | nil => intro n; exact List.Pairwise.nil
-  | cons a t ih =>
-    intro n
-    simp only [zipIdxFrom]
-    refine List.Pairwise.cons ?_ (ih (n + 1))
-    intro q hq
-    have := zipIdxFrom_fst_lt t (n + 1) q hq
-    simp only []
-    omega
-
-theorem takeWhile_index {α} (d : Nat × α) (l : List (Nat × α)) (hnd : l.Pairwise (fun a b => a.1 ≠ b.1)) (x : Nat × α) (hx : x ∈ l) :
-    (l.takeWhile (fun q => decide (q.1 ≠ x.1))).length < l.length ∧
-    l.getD (l.takeWhile (fun q => decide (q.1 ≠ x.1))).length d = x := by
-  induction l with
-  | nil => cases hx
-  | cons a t ih =>
-    have hpw := List.pairwise_cons.mp hnd
-    by_cases hax : a.1 = x.1
-    · have : a = x := by
-        rcases List.mem_cons.mp hx with h | h
-        · exact h.symm
-        · exact absurd hax (hpw.1 x h)
-      subst this
-      simp [List.takeWhile]
-    · rcases List.mem_cons.mp hx with h | h
-      · exact absurd (by rw [h]) hax
-      · obtain ⟨h1, h2⟩ := ih hpw.2 h
-        have hp : decide (a.1 ≠ x.1) = true := by simp [hax]
-        rw [List.takeWhile_cons]
-        simp only [hp, ↓reduceIte]
-        refine ⟨by simp only [List.length_cons]; omega, ?_⟩
-        simp only [List.length_cons, List.getD_cons_succ]
-        exact h2
-
-/-- **Every row's new denominator is a positive multiple of its own denominator** (`find_lcm` per
-(measure, channel) group, assigned back row by row) — the premise of `slot_exact`. -/
-theorem newDens_dvd (thr : Nat) (rows : List WSlot) (hpos : ∀ r ∈ rows, 0 < r.den) :
-    (newDens thr rows).length = rows.length ∧
-    ∀ p ∈ (zipIdxFrom 0 rows).zip (newDens thr rows), p.1.2.den ∣ p.2 ∧ 0 < p.2 := by
-  have hmem : ∀ q ∈ zipIdxFrom 0 rows, q.2 ∈ rows := by
-    have : ∀ (l : List WSlot) n, ∀ q ∈ zipIdxFrom n l, q.2 ∈ l := by
-      intro l
-      induction l with
-      | nil => intro n q hq; cases hq
-      | cons a t ih =>
-        intro n q hq
-        simp only [zipIdxFrom, List.mem_cons] at hq
-        rcases hq with rfl | hq
-        · simp
-        · exact List.mem_cons_of_mem _ (ih _ q hq)
-    exact this rows 0
-  have hlen : (zipIdxFrom 0 rows).length = rows.length := by
-    have : ∀ (l : List WSlot) n, (zipIdxFrom n l).length = l.length := by
-      intro l; induction l with
-      | nil => intro n; rfl
-      | cons a t ih => intro n; simp [zipIdxFrom, ih]
-    exact this rows 0
-  constructor
-  · simp [newDens, hlen]
-  · intro p hp
-    unfold newDens at hp
-    rw [List.zip_map_right, List.mem_map] at hp
-    obtain ⟨⟨q, q'⟩, hq, rfl⟩ := hp
-    have hqq : q = q' := by
-      have := List.of_mem_zip hq
-      have hz : ∀ (l : List (Nat × WSlot)), ∀ ab ∈ l.zip l, ab.1 = ab.2 := by
-        intro l; induction l with
-        | nil => intro ab h; cases h
-        | cons a t ih =>
-          intro ab h
-          simp only [List.zip_cons_cons, List.mem_cons] at h
-          rcases h with rfl | h
-          · rfl
-          · exact ih ab h
-      exact hz _ _ hq
-    subst hqq
-    have hqm : q ∈ zipIdxFrom 0 rows := (List.of_mem_zip hq).1
-    simp only [Prod.map_apply, id_eq]
-    set grp := (zipIdxFrom 0 rows).filter (fun r => r.2.measure = q.2.measure && r.2.channel = q.2.channel) with hgrp
-    have hqg : q ∈ grp := by
-      rw [hgrp, List.mem_filter]
-      exact ⟨hqm, by simp⟩
-    have hnd : grp.Pairwise (fun a b => a.1 ≠ b.1) := (zipIdxFrom_nodup rows 0).filter _
-    have hix := takeWhile_index q grp hnd q hqg
-    have hposg : ∀ x ∈ grp.map (·.2.den), 0 < x := by
-      intro x hx
-      obtain ⟨r, hr, rfl⟩ := List.mem_map.mp hx
-      exact hpos _ (hmem r (List.mem_filter.mp hr).1)
-    generalize (grp.takeWhile (fun r => decide (r.1 ≠ q.1))).length = n at hix ⊢
-    have hl : n < (grp.map (·.2.den)).length := by rw [List.length_map]; exact hix.1
-    have hd := (findLcm_dvd (grp.map (·.2.den)) thr hposg).2 n hl
-    have hget : (grp.map (·.2.den)).getD n 0 = q.2.den := by
-      obtain ⟨hn, hgq⟩ := hix
-      have h1 : grp.getD n q = grp[n]'hn := by
-        simp [List.getD_eq_getElem?_getD, List.getElem?_eq_getElem hn]
-      rw [List.getD_eq_getElem?_getD, List.getElem?_eq_getElem hl, Option.getD_some, List.getElem_map, ← h1, hgq]
-    rw [hget] at hd
-    exact hd
-
-/-- **A written object denotes its snap.** A row with a normalised 4/4 snap (`beat = num/bden ≥ 0`) becomes slot
-`idx` of a line with `nd` slots (`den = 4·bden ∣ nd`); by the book that slot is beat `4·idx/nd` of the measure —
-exactly the snap's beat.  (`slot_exact` composed with `den = beat.den·4`, `num = beat.num`.) -/
-theorem slot_roundtrip (r : WRow) (nd : Nat) (hmet : r.snap.met = some 4) (hb : 0 ≤ r.snap.beat) (hnd : 0 < nd)
-    (hdvd : (slotOfRow r).den ∣ nd) :
-    4 * (((cellOf (slotOfRow r) nd).idx : Nat) : Rat) / ((nd : Nat) : Rat) = r.snap.beat := by
-  have hden : (slotOfRow r).den = r.snap.beat.den * 4 := by
-    simp only [slotOfRow, hmet, Option.getD_some]
-    have : ((4 : Rat).floor).toNat = 4 := by decide +kernel
-    rw [this]
-  have hdpos : 0 < (slotOfRow r).den := by
-    rw [hden]; exact Nat.mul_pos r.snap.beat.den_pos (by decide)
-  have hex := (slot_exact (slotOfRow r) nd hdpos hdvd).1
-  have hnum : (((slotOfRow r).num : Nat) : Rat) = (r.snap.beat.num : Rat) := by
-    have h0 : 0 ≤ r.snap.beat.num := Rat.num_nonneg.mpr hb
-    have : (((slotOfRow r).num : Nat) : Int) = r.snap.beat.num := by
-      simp only [slotOfRow]; exact Int.toNat_of_nonneg h0
-    exact_mod_cast congrArg (fun z : Int => (z : Rat)) this
-  have hexq : (((cellOf (slotOfRow r) nd).idx : Nat) : Rat) * (((slotOfRow r).den : Nat) : Rat) =
-      (((slotOfRow r).num : Nat) : Rat) * ((nd : Nat) : Rat) := by exact_mod_cast congrArg (fun z : Nat => (z : Rat)) hex
-  rw [hden, hnum] at hexq
-  have hbd : ((r.snap.beat.den : Nat) : Rat) ≠ 0 := by exact_mod_cast r.snap.beat.den_nz
-  have hndq : ((nd : Nat) : Rat) ≠ 0 := by exact_mod_cast Nat.pos_iff_ne_zero.mp hnd
-  have hq : r.snap.beat = (r.snap.beat.num : Rat) / ((r.snap.beat.den : Nat) : Rat) := (Rat.num_div_den r.snap.beat).symm
-  rw [hq]
-  push_cast at hexq
-  field_simp
-  linarith
-
-/-! ### times: what the writer's positions denote -/
-
-/-- **The positions the writer computes denote the in-memory times.**
-
-`cs` is a well-formed ascending tempo list starting at measure 0 beat 0, grid-compatible on the shipped grid of
-96 (tempo points on measure lines always are), `tmOf 0 cs` what the chart stores for it.  For EVERY list of
-times at or after the first tempo point (any order, duplicates), `TimingMap.snaps` as the model runs it (its own
-`stableArgsort`, the backwards sweep, `Snap.from_offset` with the `Snapper` of 96) succeeds, returns one position
-per time in the order of the times, and the by-the-book time `timeAt 0 cs` of each position is
-* within 1/192 beat — at the tempo in force — of the in-memory time, and
-* exactly the in-memory time when that time lies on the snap grid of its tempo segment. -/
-theorem write_positions (cs : List BcSnap) (hwf : wfChanges cs = true) (hs : sortedSnaps cs = true)
-    (h0 : firstAtZero cs = true) (hgc : gridCompatible (grid defaultMaxDiv) cs = true) (hm : metronomeOk cs = true)
-    (ts : List Rat) (hts : ∀ t ∈ ts, 0 ≤ t) :
-    ∃ F : Rat → Snap, snaps defaultGrid (tmOf 0 cs) ts = .ok (ts.map F) ∧
-      ∀ t ∈ ts, queryOk cs (F t) = true ∧
-        rabs (timeAt 0 cs (F t) - t) ≤ 1 / 192 * activeBeatLen 0 cs t ∧
-        (OnGridAt (grid defaultMaxDiv) 0 cs t → timeAt 0 cs (F t) = t) := by
-  have hg : GridOK defaultGrid := gridOK_grid (by decide)
-  have hgc' : gridCompatible defaultGrid.toList cs = true := by simpa [defaultGrid] using hgc
-  have hb := bcsOfBco_rederive hg 0 cs hwf hs h0 hgc' hm
-  cases cs with
-  | nil => simp [firstAtZero] at h0
-  | cons c rest =>
-    let F : Rat → Snap := fun t => ((snapAtAux defaultGrid 0 c rest t).toOption).getD default
-    have hF : ∀ t ∈ ts, lookupSnap defaultGrid ((c :: rest).zip (tmOf 0 (c :: rest))).reverse t = .ok (F t) ∧
-        queryOk (c :: rest) (F t) = true ∧
-        rabs (timeAt 0 (c :: rest) (F t) - t) ≤ 1 / 192 * activeBeatLen 0 (c :: rest) t ∧
-        (OnGridAt (grid defaultMaxDiv) 0 (c :: rest) t → timeAt 0 (c :: rest) (F t) = t) := by
-      intro t ht
-      obtain ⟨S, hS, hle, hb0, hback⟩ :=
-        timeAtAux_snapAtAux_err hg snap_err_default 0 c rest t hwf hs hgc' hm (hts t ht)
-      have hFt : F t = S := by simp [F, hS, Except.toOption]
-      refine ⟨?_, ?_, ?_, ?_⟩
-      · simp only [tmOf, List.zip_cons_cons]
-        rw [lookupSnap_eq_snapAtAux defaultGrid 0 c rest t hwf hs (hts t ht), hS, hFt]
-      · rw [hFt]; simp [queryOk, hle, hb0]
-      · rw [hFt]; exact hback
-      · intro hon
-        obtain ⟨hT, hgrid⟩ := hon
-        have hgrid' : onGridAux defaultGrid.toList 0 c rest t := by simpa [defaultGrid] using hgrid
-        obtain ⟨S', hS', _, _, hback'⟩ := timeAtAux_snapAtAux hg 0 c rest t hwf hs hm hT hgrid'
-        rw [hS] at hS'
-        injection hS' with e
-        rw [hFt, e]
-        exact hback'
-    refine ⟨F, ?_, fun t ht => (hF t ht).2⟩
-    exact snapsWith_order defaultGrid _ _ ts _ _ F hb (stableArgsort_sortsAscR ts) (fun t ht => (hF t ht).1)
-
-/-- **A written object denotes its in-memory time** (`write_positions` composed with `slot_roundtrip`): the slot
-`idx` of `nd` that the writer fills for an object at time `t` — in the line of the measure of its snap — lies, by
-the book, at a position whose time is `t` exactly when `t` is on the snap grid, and within 1/192 beat otherwise.
-`F` is the position function of `write_positions`; `nd` any positive multiple of the row's denominator
-(`newDens_dvd`). -/
-theorem written_slot_time (cs : List BcSnap) (F : Rat → Snap) (t : Rat) (ch v : Bytes) (nd : Nat)
-    (hmet : (F t).met = some 4) (hq : queryOk cs (F t) = true) (hnd : 0 < nd)
-    (hdvd : (slotOfRow ⟨F t, ch, v⟩).den ∣ nd) :
-    timeAt 0 cs ⟨(F t).measure, 4 * (((cellOf (slotOfRow ⟨F t, ch, v⟩) nd).idx : Nat) : Rat) / ((nd : Nat) : Rat), none⟩ =
-      timeAt 0 cs (F t) := by
-  have hb : 0 ≤ (F t).beat := by
-    cases cs with
-    | nil => simp [queryOk] at hq
-    | cons c rest =>
-      simp only [queryOk, Bool.and_eq_true, decide_eq_true_eq] at hq
-      exact hq.2
-  have := slot_roundtrip ⟨F t, ch, v⟩ nd hmet hb hnd hdvd
-  simp only at this
-  rw [this]
-  -- `timeAt` does not look at the metronome field of the query
-  cases cs with
-  | nil => rfl
-  | cons c rest =>
-    simp only [timeAt]
-    have hgen : ∀ (T : Rat) (cur : BcSnap) (l : List BcSnap) (a b : Snap), a.measure = b.measure → a.beat = b.beat →
-        timeAtAux T cur l a = timeAtAux T cur l b := by
-      intro T cur l
-      induction l generalizing T cur with
-      | nil => intro a b h1 h2; simp [timeAtAux, snapDist, h1, h2]
-      | cons n l ih =>
-        intro a b h1 h2
-        have hle : n.snap.le a = n.snap.le b := by simp [Snap.le, Snap.lt, Snap.eqv, h1, h2]
-        simp only [timeAtAux, hle, snapDist, h1, h2]
-        split
-        · exact ih _ _ a b h1 h2
-        · rfl
-    exact hgen 0 c rest _ _ rfl rfl
-
-/-! ### the tempo objects of the written file -/
-
-/-- **The tempo objects of the written file are the in-memory tempo list — for any order of the tempo rows.**
-
-`cs`: well-formed, strictly ascending (no two tempo points on one measure line), first at measure 0 beat 0,
-grid-compatible; `rows`: ANY arrangement of what the chart stores for `cs`, every tempo a three-decimal number
-(¬D06).  The writer sorts a copy of the rows (`from_bpm_changes_offset`), asks `TimingMap.snaps` for the position of
-every row's own offset *in row order*, writes row `i` as the channel-08 object `base36(i+1)` at that position and
-`#BPM<base36(i+1)>` with the row's tempo rounded to three decimals.  Reading the objects back through the table
-— tempo `roundDec 3 bpm_i`, metronome of the row, at the written position — and sorting by position gives exactly
-`cs`.  (The round-1 seeded changes C05-A / C15-A attacked this numbering under unsorted rows.) -/
-theorem written_tempo_list (cs : List BcSnap) (hwf : wfChanges cs = true) (hs : strictSnaps cs = true)
-    (h0 : firstAtZero cs = true) (hgc : gridCompatible (grid defaultMaxDiv) cs = true) (hm : metronomeOk cs = true)
-    (rows : List BcOff) (hp : rows.Perm (tmOf 0 cs)) (hdec : ∀ b ∈ rows, roundDec 3 b.bpm = b.bpm) :
-    sortBcOff rows = tmOf 0 cs ∧
-    ∃ sn, snaps defaultGrid (sortBcOff rows) (rows.map (·.offset)) = .ok sn ∧ sn.length = rows.length ∧
-      sortBcSnap ((rows.zip sn).map (fun p => (⟨roundDec 3 p.1.bpm, p.1.met, { p.2 with met := some p.1.met }⟩ : BcSnap))) = cs := by
-  have hg : GridOK defaultGrid := gridOK_grid (by decide)
-  have hgc' : gridCompatible defaultGrid.toList cs = true := by simpa [defaultGrid] using hgc
-  obtain ⟨hsort, G, hsn, hG⟩ := tempo_rows_positions hg 0 cs hwf hs h0 hgc' hm rows hp
-  refine ⟨hsort, rows.map (fun b => G b.offset), hsn, by simp, ?_⟩
-  have hperm := rows_changes_perm 0 cs hwf rows hp G hG
-  have hlist : (rows.zip (rows.map (fun b => G b.offset))).map
-      (fun p => (⟨roundDec 3 p.1.bpm, p.1.met, { p.2 with met := some p.1.met }⟩ : BcSnap)) =
-      rows.map (fun b => (⟨b.bpm, b.met, { G b.offset with met := some b.met }⟩ : BcSnap)) := by
-    rw [zip_map_self]
-    apply List.map_congr_left
-    intro b hb
-    simp [hdec b hb]
-  rw [hlist]
-  have hstrict : strictSnaps (sortBcSnap cs) = true := by rw [sortBcSnap_eq_self (sortedSnaps_of_strict hs)]; exact hs
-  rw [sortBcSnap_eq_of_perm hperm hstrict, sortBcSnap_eq_self (sortedSnaps_of_strict hs)]
-
-/-- the `#BPMxx` table: a dict filled with pairwise different keys is the list of its entries, and looks every
-entry up -/
-theorem dict_of_distinct {α} (kvs : List (Bytes × α)) (hnd : (kvs.map (·.1)).Nodup) :
-    kvs.foldl (fun d kv => dictSet d kv.1 kv.2) [] = kvs ∧ ∀ kv ∈ kvs, dictGet? kvs kv.1 = some kv.2 := by
-  constructor
-  · have key : ∀ (l d : List (Bytes × α)), ((d ++ l).map (·.1)).Nodup →
-        l.foldl (fun d kv => dictSet d kv.1 kv.2) d = d ++ l := by
-      intro l
-      induction l with
-      | nil => intro d _; simp
-      | cons a t ih =>
-        intro d hnd
-        simp only [List.foldl_cons]
-        have hnot : d.any (fun p => p.1 = a.1) = false := by
-          rw [List.any_eq_false]
-          intro p hp
-          simp only [decide_eq_true_eq]
-          intro e
-          rw [List.map_append, List.map_cons, List.nodup_append] at hnd
-          exact hnd.2.2 p.1 (List.mem_map_of_mem (f := fun q : Bytes × α => q.1) hp) a.1 (by simp) e
-        have hset : dictSet d a.1 a.2 = d ++ [a] := by simp [dictSet, hnot]
-        rw [hset, ih (d ++ [a]) (by simpa using hnd)]
-        simp
-    simpa using key kvs [] (by simpa using hnd)
-  · intro kv hkv
-    simp only [dictGet?]
-    rw [find_fst_of_mem kvs hnd kv hkv]
-    rfl
-
-/-- ids of the tempo rows are pairwise different (up to 1295 rows) -/
-theorem base36_ids_nodup (n : Nat) (hn : n < 1296) : ((List.range n).map (fun i => base36 (i + 1))).Nodup := by
-  rw [List.nodup_map_iff_inj_on List.nodup_range]
-  intro i hi j hj h
-  have hi' : i + 1 < 1296 := by have := List.mem_range.mp hi; omega
-  have hj' : j + 1 < 1296 := by have := List.mem_range.mp hj; omega
-  have := congrArg unb36 h
-  rw [(base36_roundtrip (i + 1) hi').1, (base36_roundtrip (j + 1) hj').1] at this
-  omega
-
-/-! ### the `#BPMxx` table, read back -/
-
-/-- the `(key, value)` pairs of the `#BPMxx` lines the writer emits, in row order -/
-def bpmEntries (rows : List BcOff) : List (Bytes × Bytes) :=
-  (zipIdxFrom 1 rows).map (fun p => ("BPM".toList ++ base36 p.1, showFixed Generated.BMS.exbpmDecimals p.2.bpm))
-
-theorem zipIdxFrom_fst {α} (l : List α) : ∀ k, (zipIdxFrom k l).map (·.1) = (List.range l.length).map (fun i => k + i) := by
-  induction l with
-  | nil => intro k; rfl
+  | nil => intro k; simp [zipIdxFrom]
   | cons a t ih =>
     intro k
-    simp only [zipIdxFrom, List.map_cons, List.length_cons, List.range_succ_eq_map, ih (k + 1), List.map_map]
-    simp only [Nat.add_zero, List.cons.injEq, true_and]
-    apply List.map_congr_left
-    intro i _
-    simp only [Function.comp]
-    omega
+    obtain ⟨ih1, ih2⟩ := ih (k + 1)
+    have hstep : 4 * ((k : Nat) : Rat) / ((n : Nat) : Rat) < 4 * (((k + 1 : Nat)) : Rat) / ((n : Nat) : Rat) := by
+      rw [div_lt_div_iff_of_pos_right hnq]; push_cast; linarith
+    simp only [zipIdxFrom, List.filterMap_cons]
+    by_cases h00 : a = ['0', '0']
+    · simp only [h00, if_true]
+      exact ⟨ih1, fun o ho => le_trans (le_of_lt hstep) (ih2 o ho)⟩
+    · simp only [h00, if_false]
+      refine ⟨List.pairwise_cons.mpr ⟨fun o ho => lt_of_lt_of_le hstep (ih2 o ho), ih1⟩, ?_⟩
+      intro o ho
+      rcases List.mem_cons.mp ho with rfl | ho
+      · exact le_refl _
+      · exact le_trans (le_of_lt hstep) (ih2 o ho)
 
-/-- **Header read-back of the tempo table** (`parseFloat ∘ showFixed 3`).  `_read_file_header`'s loop over the
-`#BPMxx` entries the writer produced — for ANY rows (fewer than 1295, non-negative tempos) — succeeds and builds
-the table `base36(i+1) ↦ roundDec 3 bpm_i` in row order; so every id looks up the three-decimal rounding of its own
-row's tempo, which is the tempo itself when it has at most three decimals (¬D06). -/
-theorem exbpm_table_readback (rows : List BcOff) (hn : rows.length < 1295) (hpos : ∀ b ∈ rows, 0 ≤ b.bpm) :
-    foldlE exbpmStep [] (bpmEntries rows) = .ok ((zipIdxFrom 1 rows).map (fun p => (base36 p.1, roundDec 3 p.2.bpm))) ∧
-    ∀ p ∈ zipIdxFrom 1 rows,
-      dictGet? ((zipIdxFrom 1 rows).map (fun p => (base36 p.1, roundDec 3 p.2.bpm))) (base36 p.1) = some (roundDec 3 p.2.bpm) := by
-  have hdec : Generated.BMS.exbpmDecimals = 3 := by decide
-  -- the ids are pairwise different
-  have hids : (((zipIdxFrom 1 rows).map (fun p => (base36 p.1, roundDec 3 p.2.bpm))).map (·.1)).Nodup := by
-    rw [List.map_map]
-    have : (zipIdxFrom 1 rows).map ((fun q : Bytes × Rat => q.1) ∘ fun p => (base36 p.1, roundDec 3 p.2.bpm)) =
-        ((zipIdxFrom 1 rows).map (·.1)).map base36 := by simp [List.map_map, Function.comp_def]
-    rw [this, zipIdxFrom_fst, List.map_map]
-    have h2 := base36_ids_nodup rows.length (by omega)
-    have : (List.range rows.length).map (base36 ∘ fun i => 1 + i) = (List.range rows.length).map (fun i => base36 (i + 1)) := by
-      apply List.map_congr_left; intro i _; simp [Function.comp, Nat.add_comm]
-    rw [this]; exact h2
-  obtain ⟨hfold, hlook⟩ := dict_of_distinct _ hids
-  constructor
-  · -- the loop is the dict fill
-    have key : ∀ (l : List (Nat × BcOff)) (d : Dict Rat), (∀ p ∈ l, 0 ≤ p.2.bpm) →
-        foldlE exbpmStep d (l.map (fun p => ("BPM".toList ++ base36 p.1, showFixed Generated.BMS.exbpmDecimals p.2.bpm))) =
-          .ok ((l.map (fun p => (base36 p.1, roundDec 3 p.2.bpm))).foldl (fun d kv => dictSet d kv.1 kv.2) d) := by
-      intro l
-      induction l with
-      | nil => intro d _; rfl
-      | cons a t ih =>
-        intro d hp
-        simp only [List.map_cons, foldlE_cons, List.foldl_cons]
-        have hkey : isExbpmKey ("BPM".toList ++ base36 a.1) = true := by
-          simp [isExbpmKey, base36, upper]
-        have hval : parseFloat (showFixed Generated.BMS.exbpmDecimals a.2.bpm) = some (roundDec 3 a.2.bpm) := by
-          rw [hdec]; exact parseFloat_showFixed 3 (by decide) _ (hp a (by simp))
-        have hdrop : ("BPM".toList ++ base36 a.1).drop 3 = base36 a.1 := by simp
-        simp only [exbpmStep, hkey, if_true, hval, hdrop]
-        exact ih _ (fun p hpm => hp p (by simp [hpm]))
-    have hp' : ∀ p ∈ zipIdxFrom 1 rows, 0 ≤ p.2.bpm := by
-      intro p hp
-      exact hpos p.2 (zipIdxFrom_mem rows 1 p hp).2.2
-    have := key (zipIdxFrom 1 rows) [] hp'
-    rw [hfold] at this
-    exact this
-  · intro p hp
-    exact hlook (base36 p.1, roundDec 3 p.2.bpm) (List.mem_map_of_mem (f := fun p : Nat × BcOff => (base36 p.1, roundDec 3 p.2.bpm)) hp)
+theorem nodup_of_pairwise_lt {α} (f : α → Rat) (l : List α) (h : l.Pairwise (fun a b => f a < f b)) : l.Nodup :=
+  h.imp (fun {a b} hab e => by rw [e] at hab; exact lt_irrefl _ hab)
 
-/-! ### the slot fill -/
-
-def fillFrom (seq : List Bytes) (cells : List WCell) : List Bytes :=
-  cells.foldl (fun seq c => seq.set c.idx c.value) seq
-
-theorem fillFrom_length (cells : List WCell) : ∀ seq, (fillFrom seq cells).length = seq.length := by
-  induction cells with
-  | nil => intro seq; rfl
-  | cons c t ih => intro seq; simp only [fillFrom, List.foldl_cons] at *; rw [ih]; simp
-
-theorem fillFrom_other (cells : List WCell) (i : Nat) (d : Bytes) :
-    ∀ seq, (∀ c ∈ cells, c.idx ≠ i) → (fillFrom seq cells).getD i d = seq.getD i d := by
-  induction cells with
-  | nil => intro seq _; rfl
-  | cons c t ih =>
-    intro seq h
-    simp only [fillFrom, List.foldl_cons] at *
-    rw [ih _ (fun x hx => h x (by simp [hx]))]
-    exact getD_set_ne _ _ _ _ _ (h c (by simp))
-
-theorem fillFrom_get (cells : List WCell) (d : Bytes) :
-    ∀ seq, cells.Pairwise (fun a b => a.idx ≠ b.idx) → (∀ c ∈ cells, c.idx < seq.length) →
-      ∀ c ∈ cells, (fillFrom seq cells).getD c.idx d = c.value := by
-  induction cells with
-  | nil => intro seq _ _ c hc; cases hc
-  | cons x t ih =>
-    intro seq hpw hlt c hc
-    have hpw' := List.pairwise_cons.mp hpw
-    rcases List.mem_cons.mp hc with rfl | hct
-    · have := fillFrom_other t c.idx d (seq.set c.idx c.value) (fun y hy => fun e => hpw'.1 y hy e.symm)
-      simp only [fillFrom, List.foldl_cons] at *
-      rw [this]
-      exact getD_set_eq _ _ _ _ (hlt c (by simp))
-    · simp only [fillFrom, List.foldl_cons]
-      exact ih (seq.set x.idx x.value) hpw'.2 (fun y hy => by simpa using hlt y (by simp [hy])) c hct
-
-/-- **Nothing is merged, nothing is dropped** (one written line): if the cells of a line sit on pairwise
-different slots inside the line, the line has exactly `den` slots, every cell's id is on its own slot, and every
-other slot is the empty object `00`. -/
-theorem no_merge_no_drop (den : Nat) (cells : List WCell)
-    (hpw : cells.Pairwise (fun a b => a.idx ≠ b.idx)) (hlt : ∀ c ∈ cells, c.idx < den) :
-    (fillSeq den cells).length = den ∧
-    (∀ c ∈ cells, (fillSeq den cells).getD c.idx [] = c.value) ∧
-    (∀ i, (∀ c ∈ cells, c.idx ≠ i) → i < den → (fillSeq den cells).getD i [] = ['0', '0']) := by
-  have hlen : (List.replicate den ['0', '0']).length = den := by simp
-  refine ⟨?_, ?_, ?_⟩
-  · show (fillFrom _ cells).length = den
-    rw [fillFrom_length]; exact hlen
-  · intro c hc
-    exact fillFrom_get cells [] _ hpw (fun y hy => by rw [hlen]; exact hlt y hy) c hc
-  · intro i hi hid
-    show (fillFrom _ cells).getD i [] = _
-    rw [fillFrom_other cells i [] _ hi]
-    simp [List.getD_eq_getElem?_getD, hid]
-
-/-! ### line syntax -/
-
-theorem measure_text_b : ∀ m, m < 1000 →
-    (match padLeft 3 '0' (showNat m) with
-     | [a, b, c] => isDigit a && isDigit b && isDigit c
-     | _ => false) = true := by
-  decide +kernel
-
-theorem measure_text (m : Nat) (hm : m < 1000) :
-    ∃ a b c, padLeft 3 '0' (showNat m) = [a, b, c] ∧ isDigit a = true ∧ isDigit b = true ∧ isDigit c = true := by
-  have h := measure_text_b m hm
-  generalize padLeft 3 '0' (showNat m) = l at h
-  match l, h with
-  | [a, b, c], h =>
-    simp only [Bool.and_eq_true] at h
-    exact ⟨a, b, c, rfl, h.1.1, h.1.2, h.2⟩
-
-theorem fillFrom_all (P : Bytes → Prop) (cells : List WCell) (hv : ∀ c ∈ cells, P c.value) :
-    ∀ seq : List Bytes, (∀ x ∈ seq, P x) → ∀ x ∈ fillFrom seq cells, P x := by
-  induction cells with
-  | nil => intro seq h; exact h
-  | cons c t ih =>
-    intro seq h
-    simp only [fillFrom, List.foldl_cons]
-    apply ih (fun y hy => hv y (by simp [hy]))
-    intro x hx
-    rcases List.mem_or_eq_of_mem_set hx with h1 | h1
-    · exact h x h1
-    · rw [h1]; exact hv c (by simp)
-
-theorem flatten_two (l : List Bytes) (h : ∀ x ∈ l, x.length = 2 ∧ x.all isB36 = true) :
-    l.flatten.length = 2 * l.length ∧ l.flatten.all isB36 = true := by
-  induction l with
-  | nil => simp
-  | cons x t ih =>
-    have hx := h x (by simp)
-    have ht := ih (fun y hy => h y (by simp [hy]))
-    constructor
-    · simp only [List.flatten_cons, List.length_append, hx.1, ht.1, List.length_cons]; omega
-    · simp only [List.flatten_cons, List.all_append, hx.2, ht.2, Bool.and_self]
-
-/-- **Every written data line is syntactically valid**: for a measure below 1000, a two-character base-36
-channel, a positive denominator and two-character base-36 ids, the line is `#mmmcc:` followed by exactly
-`2·den` base-36 characters. -/
-theorem line_valid (cells : List WCell) (k : WCell) (hm : 0 ≤ k.measure ∧ k.measure < 1000) (hden : 0 < k.den)
-    (hch : ∃ a b, k.channel = [a, b] ∧ isB36 a = true ∧ isB36 b = true)
-    (hv : ∀ c ∈ cells, c.value.length = 2 ∧ c.value.all isB36 = true) :
-    lineValid (lineOf cells k) = true ∧ (lineOf cells k).length = 7 + 2 * k.den := by
-  obtain ⟨a, b, hab, ha, hb⟩ := hch
-  have hmn : k.measure.toNat < 1000 := by omega
-  obtain ⟨m1, m2, m3, hmt, h1, h2, h3⟩ := measure_text k.measure.toNat hmn
-  have hseq : ∀ x ∈ fillSeq k.den (cells.filter (sameLine k)), x.length = 2 ∧ x.all isB36 = true := by
-    apply fillFrom_all (fun x => x.length = 2 ∧ x.all isB36 = true)
-    · intro c hc; exact hv c (List.mem_filter.mp hc).1
-    · intro x hx
-      rw [List.eq_of_mem_replicate hx]
-      decide
-  have hfl := flatten_two _ hseq
-  have hlen : (fillSeq k.den (cells.filter (sameLine k))).length = k.den := by
-    show (fillFrom _ _).length = _
-    rw [fillFrom_length]; simp
-  rw [hlen] at hfl
-  have hne : (fillSeq k.den (cells.filter (sameLine k))).flatten.isEmpty = false := by
-    cases hf : (fillSeq k.den (cells.filter (sameLine k))).flatten with
-    | nil => rw [hf] at hfl; simp at hfl; omega
-    | cons _ _ => rfl
-  constructor
-  · simp only [lineOf, hmt, hab, List.cons_append, List.nil_append, lineValid, h1, h2, h3, ha, hb, hne, hfl.1, hfl.2,
-      Bool.and_self, Bool.not_false, Bool.true_and, Bool.and_true, decide_eq_true_eq]
-    omega
-  · simp only [lineOf, hmt, hab, List.cons_append, List.nil_append, List.length_cons, hfl.1]
-    omega
-
-/-! ### a written line, read back by the book -/
-
-theorem measure_text_parse : ∀ m, m < 1000 → parseNat (padLeft 3 '0' (showNat m)) = some m := by
-  decide +kernel
-
-theorem zipIdxFrom_mem_iff {α} (l : List α) : ∀ (k : Nat) (p : Nat × α),
-    p ∈ zipIdxFrom k l ↔ ∃ i, i < l.length ∧ p.1 = k + i ∧ l[i]? = some p.2 := by
-  induction l with
-  | nil => intro k p; simp [zipIdxFrom]
-  | cons a t ih =>
-    intro k p
-    simp only [zipIdxFrom, List.mem_cons, ih (k + 1) p]
-    constructor
-    · rintro (rfl | ⟨i, hi, h1, h2⟩)
-      · exact ⟨0, by simp, by simp, by simp⟩
-      · exact ⟨i + 1, by simp [hi], by omega, by simpa using h2⟩
-    · rintro ⟨i, hi, h1, h2⟩
-      cases i with
-      | zero =>
-        left
-        simp only [List.getElem?_cons_zero, Option.some.injEq] at h2
-        exact Prod.ext (by simpa using h1) h2.symm
-      | succ j =>
-        right
-        exact ⟨j, by simpa using hi, by omega, by simpa using h2⟩
-
-/-- **A written data line, read back by the book, is its cells.**  For the line of key `k` (measure below 1000,
-two-character base-36 channel and ids, positive denominator, cells on pairwise different slots inside the line):
-the lexer of the denotation classifies the rendered text as a data line of measure `k.measure` and channel
-`k.channel`, its data splits into exactly the `den` slots, and the by-the-book objects of the line are exactly
-the cells with a non-`00` id, each at beat `4·idx/den` of the measure, carrying its id. -/
-theorem written_line_denotes (cells : List WCell) (k : WCell) (hm : 0 ≤ k.measure ∧ k.measure < 1000) (hden : 0 < k.den)
-    (hch : ∃ a b, k.channel = [a, b] ∧ isB36 a = true ∧ isB36 b = true)
-    (hv : ∀ c ∈ cells, c.value.length = 2 ∧ c.value.all isB36 = true)
-    (hpw : (cells.filter (sameLine k)).Pairwise (fun a b => a.idx ≠ b.idx))
-    (hlt : ∀ c ∈ cells.filter (sameLine k), c.idx < k.den) :
-    ∃ mt data objs, classify (lineOf cells k) = .ok (.note mt k.channel data) ∧ parseNat mt = some k.measure.toNat ∧
-      lineObjs k.measure.toNat data = some objs ∧
-      ∀ o, o ∈ objs ↔ ∃ c ∈ cells.filter (sameLine k), c.value ≠ ['0', '0'] ∧
-        o = ⟨⟨(k.measure.toNat : Int), 4 * ((c.idx : Nat) : Rat) / ((k.den : Nat) : Rat), none⟩, c.value⟩ := by
-  obtain ⟨a, b, hab, ha, hb⟩ := hch
-  have hmn : k.measure.toNat < 1000 := by omega
-  obtain ⟨m1, m2, m3, hmt, h1, h2, h3⟩ := measure_text k.measure.toNat hmn
-  obtain ⟨grp, hgrp⟩ : ∃ grp, grp = cells.filter (sameLine k) := ⟨_, rfl⟩
-  rw [← hgrp] at hpw hlt
-  obtain ⟨seq, hseq⟩ : ∃ seq, seq = fillSeq k.den grp := ⟨_, rfl⟩
-  have hseqP : ∀ x ∈ seq, x.length = 2 ∧ x.all isB36 = true := by
-    rw [hseq]
-    apply fillFrom_all (fun x => x.length = 2 ∧ x.all isB36 = true)
-    · intro c hc; rw [hgrp] at hc; exact hv c (List.mem_filter.mp hc).1
-    · intro x hx
-      rw [List.eq_of_mem_replicate hx]
-      decide
-  obtain ⟨hlen, hget, hother⟩ := no_merge_no_drop k.den grp hpw hlt
-  rw [← hseq] at hlen hget hother
-  have hfl := flatten_two seq hseqP
-  have hne : seq.flatten ≠ [] := by
-    intro e
-    have := hfl.1
-    rw [e, hlen] at this
-    simp at this
-    omega
-  have hdata : ∀ c ∈ seq.flatten, isB36 c = true := by
-    intro c hc
-    have := hfl.2
-    rw [List.all_eq_true] at this
-    exact this c hc
-  have hline : lineOf cells k = '#' :: m1 :: m2 :: m3 :: a :: b :: ':' :: seq.flatten := by
-    simp [lineOf, hmt, hab, hseq, hgrp]
-  refine ⟨[m1, m2, m3], seq.flatten, objsOfPairs k.measure.toNat seq, ?_, ?_, ?_, ?_⟩
-  · rw [hline, classify_rendered m1 m2 m3 a b _ h1 h2 h3 ha hb hdata hne, hab]
-  · rw [← hmt]; exact measure_text_parse _ hmn
-  · exact lineObjs_eq _ _ _ (evenPairs_flatten seq (fun x hx => (hseqP x hx).1))
-  · intro o
-    rw [← hgrp]
-    simp only [objsOfPairs, List.mem_filterMap, hlen]
-    constructor
-    · rintro ⟨p, hp, hpo⟩
-      obtain ⟨i, hi, hp1, hp2⟩ := (zipIdxFrom_mem_iff seq 0 p).mp hp
-      have hp1' : p.1 = i := by omega
-      have hgetD : seq.getD i [] = p.2 := by simp [List.getD_eq_getElem?_getD, hp2]
-      by_cases h00 : p.2 = ['0', '0']
-      · simp [h00] at hpo
-      · simp only [h00, if_false, Option.some.injEq] at hpo
-        -- slot `i` is not empty, so some cell sits on it
-        have hex : ∃ c ∈ grp, c.idx = i := by
-          apply Classical.byContradiction
-          intro hno
-          have hno' : ∀ c ∈ grp, c.idx ≠ i := fun c hc e => hno ⟨c, hc, e⟩
-          have := hother i hno' (by rw [← hlen]; exact hi)
-          rw [hgetD] at this
-          exact h00 this
-        obtain ⟨c, hc, hci⟩ := hex
-        have hval := hget c hc
-        rw [hci, hgetD] at hval
-        refine ⟨c, hc, by rw [← hval]; exact h00, ?_⟩
-        rw [← hpo, hp1', ← hval, hci]
-    · rintro ⟨c, hc, hne0, rfl⟩
-      have hci : c.idx < seq.length := by rw [hlen]; exact hlt c hc
-      have hval := hget c hc
-      have hval' : seq[c.idx]? = some c.value := by
-        rw [List.getD_eq_getElem?_getD, List.getElem?_eq_getElem hci, Option.getD_some] at hval
-        rw [List.getElem?_eq_getElem hci, hval]
-      refine ⟨(c.idx, c.value), (zipIdxFrom_mem_iff seq 0 _).mpr ⟨c.idx, hci, by simp, hval'⟩, ?_⟩
-      simp [hne0]
-
-/-! ### LNOBJ pairing on a written lane -/
-
-/-- what a lane of the in-memory chart contributes to the file: a hit is one object, a hold is a head object
-followed by an `#LNOBJ` object -/
-inductive Atom where
-  | hit (o : Obj)
-  | hold (h t : Obj)
-
-def Atom.objs : Atom → List Obj
-  | .hit o => [o]
-  | .hold h t => [h, t]
-
-def Atom.wf (ln : Bytes) : Atom → Prop
-  | .hit o => o.id ≠ ln
-  | .hold h t => h.id ≠ ln ∧ t.id = ln
-
-def Atom.hits (so : Bytes → Bytes) (col : Nat) : Atom → List SHit
-  | .hit o => [⟨col, so o.id, o.snap⟩]
-  | .hold _ _ => []
-
-def Atom.holds (so : Bytes → Bytes) (col : Nat) : Atom → List SHold
-  | .hit _ => []
-  | .hold h t => [⟨col, so h.id, h.snap, t.snap⟩]
-
-/-- **By-the-book pairing of a written lane.**  When the lane's objects in position order are the chart's hits
-and holds one after the other — every hold's `#LNOBJ` object directly after its head, i.e. nothing of the lane lies
-inside a hold (the hypothesis D37 violates) — the by-the-book pairing returns exactly those hits and exactly those
-holds (head position, tail position, the head's sample), in order. -/
-theorem pairLane_atoms (ln : Bytes) (so : Bytes → Bytes) (col : Nat) (atoms : List Atom)
-    (hwf : ∀ a ∈ atoms, a.wf ln) :
-    pairLane (some ln) so col none (atoms.flatMap Atom.objs) =
-      some (atoms.flatMap (Atom.hits so col), atoms.flatMap (Atom.holds so col)) := by
-  induction atoms with
-  | nil => rfl
-  | cons a rest ih =>
-    have ih' := ih (fun x hx => hwf x (by simp [hx]))
-    have ha := hwf a (by simp)
-    cases a with
-    | hit o =>
-      have ho : ¬ (some o.id = some ln) := by
-        intro e; injection e with e; exact ha e
-      simp only [List.flatMap_cons, Atom.objs, List.cons_append, List.nil_append, Atom.hits, Atom.holds]
-      -- the open object `o` is flushed as a hit by whatever comes next
-      have key : ∀ (os : List Obj) (H : List SHit) (L : List SHold), pairLane (some ln) so col none os = some (H, L) →
-          pairLane (some ln) so col (some o) os = some (⟨col, so o.id, o.snap⟩ :: H, L) := by
-        intro os
-        induction os with
-        | nil =>
-          intro H L h
-          simp only [pairLane, Option.some.injEq, Prod.mk.injEq] at h
-          obtain ⟨rfl, rfl⟩ := h
-          rfl
-        | cons x xs _ =>
-          intro H L h
-          by_cases hx : some x.id = some ln
-          · simp [pairLane, hx] at h
-          · simp only [pairLane, hx, if_false] at h ⊢
-            rw [h]; rfl
-      simp only [pairLane, ho, if_false]
-      exact key _ _ _ ih'
-    | hold h t =>
-      obtain ⟨hh, ht⟩ := ha
-      have h1 : ¬ (some h.id = some ln) := by
-        intro e; injection e with e; exact hh e
-      have h2 : some t.id = some ln := by rw [ht]
-      simp only [List.flatMap_cons, Atom.objs, List.cons_append, List.nil_append, Atom.hits, Atom.holds, pairLane, h1,
-        if_false, h2, if_true, ih', Option.map_some]
-
-/-! ### the data lines of a written file, read back: per-channel union of the lines -/
-
-/-- a cell the writer can render: measure 000–999, positive denominator, two-character base-36 channel and id -/
-def CellOK (c : WCell) : Prop :=
-  (0 ≤ c.measure ∧ c.measure < 1000) ∧ 0 < c.den ∧ (∃ a b, c.channel = [a, b] ∧ isB36 a = true ∧ isB36 b = true) ∧
-  (c.value.length = 2 ∧ c.value.all isB36 = true)
-
-theorem objsOfLine_of (d : Bytes × Bytes × Bytes) (m : Nat) (objs : List Obj) (hm : parseNat d.1 = some m)
-    (ho : lineObjs m d.2.2 = some objs) : objsOfLine d = objs := by
-  unfold lineObjs at ho
-  cases hps : evenPairs d.2.2 with
-  | none => simp [hps] at ho
-  | some ps =>
-    simp only [hps, Option.map_some, Option.some.injEq] at ho
-    simp only [objsOfLine, hm, hps, objsOfPairs]
-    exact ho
-
-theorem laneObjs_cons (d : Bytes × Bytes × Bytes) (notes : List (Bytes × Bytes × Bytes)) (ch : Bytes) :
-    laneObjs (d :: notes) ch = (if d.2.1 = ch then objsOfLine d else []) ++ laneObjs notes ch := by
-  unfold laneObjs
-  by_cases h : d.2.1 = ch
-  · simp [List.filter_cons, h]
-  · simp [List.filter_cons, h]
-
-theorem foldlE_docStep_notes (ds : List Bytes) : ∀ (doc0 : Doc) (notes : List (Bytes × Bytes × Bytes)),
-    List.Forall₂ (fun l d => classify l = .ok (.note d.1 d.2.1 d.2.2)) ds notes →
-    foldlE docStep doc0 ds = .ok ⟨doc0.header, doc0.notes ++ notes⟩ := by
-  induction ds with
-  | nil =>
-    intro doc0 notes h
-    cases h
-    simp [foldlE]
-  | cons l t ih =>
-    intro doc0 notes h
-    cases h with
-    | cons hl ht =>
-      rename_i d notes'
-      rw [foldlE_cons]
-      simp only [docStep, hl]
-      rw [ih _ _ ht]
-      simp
-
-/-- **The written data lines, read back by the book, are the cells — channel by channel.**  For cells the writer
-can render (`CellOK`), with the cells of every output line on pairwise different slots inside the line: the lexer
-of the denotation classifies every line of `linesOfCells cells` as a data line, and the by-the-book objects of a
-channel over the whole file are exactly the non-`00` cells of that channel, each at measure `c.measure`, beat
-`4·idx/den`, carrying its id — nothing merged, nothing dropped, nothing invented. -/
-theorem written_objects (cells : List WCell) (hcell : ∀ c ∈ cells, CellOK c)
+/-- **The written data lines give every channel an arrangement of exactly its cells' objects.**  The lift of
+`written_objects` from a membership equivalence to a permutation: for renderable cells with the cells of every
+output line on pairwise different slots inside the line, the by-the-book objects of channel `ch` over all lines of
+`linesOfCells cells` are — up to order, with multiplicities — the objects of the non-`00` cells of that channel. -/
+theorem written_objects_perm (cells : List WCell) (hcell : ∀ c ∈ cells, CellOK c)
     (hslots : ∀ k ∈ lineKeys cells, (cells.filter (sameLine k)).Pairwise (fun a b => a.idx ≠ b.idx) ∧
       ∀ c ∈ cells.filter (sameLine k), c.idx < k.den) (doc0 : Doc) :
     ∃ notes, foldlE docStep doc0 (linesOfCells cells) = .ok ⟨doc0.header, doc0.notes ++ notes⟩ ∧
-      ∀ ch o, o ∈ laneObjs notes ch ↔ ∃ c ∈ cells, c.channel = ch ∧ c.value ≠ ['0', '0'] ∧
-        o = ⟨⟨(c.measure.toNat : Int), 4 * ((c.idx : Nat) : Rat) / ((c.den : Nat) : Rat), none⟩, c.value⟩ := by
-  obtain ⟨hsub, hcov, _⟩ := lineKeys_cover cells
-  -- line by line
+      (∀ d ∈ notes, (∃ m, parseNat d.1 = some m) ∧ (∃ ps, evenPairs d.2.2 = some ps) ∧ ∃ k ∈ lineKeys cells, d.2.1 = k.channel) ∧
+      ∀ ch, (laneObjs notes ch).Perm ((cells.filter (cellShown ch)).map objOfCell) := by
+  obtain ⟨hsub, hcov, hpw⟩ := lineKeys_cover cells
+  -- line by line: the line is a data line whose objects are an arrangement of its cells' objects
   have hline : ∀ k ∈ lineKeys cells, ∃ d : Bytes × Bytes × Bytes, classify (lineOf cells k) = .ok (.note d.1 d.2.1 d.2.2) ∧
-      d.2.1 = k.channel ∧ ∀ o, o ∈ objsOfLine d ↔ ∃ c ∈ cells.filter (sameLine k), c.value ≠ ['0', '0'] ∧
-        o = ⟨⟨(k.measure.toNat : Int), 4 * ((c.idx : Nat) : Rat) / ((k.den : Nat) : Rat), none⟩, c.value⟩ := by
+      d.2.1 = k.channel ∧ (∃ m, parseNat d.1 = some m) ∧ (∃ ps, evenPairs d.2.2 = some ps) ∧
+      (objsOfLine d).Perm (((cells.filter (sameLine k)).filter (fun c => decide (c.value ≠ ['0', '0']))).map objOfCell) := by
     intro k hk
     obtain ⟨hm, hden, hch, _⟩ := hcell k (hsub k hk)
     obtain ⟨mt, data, objs, hcl, hpn, hlo, hiff⟩ := written_line_denotes cells k hm hden hch
       (fun c hc => (hcell c hc).2.2.2) (hslots k hk).1 (hslots k hk).2
-    refine ⟨(mt, k.channel, data), hcl, rfl, ?_⟩
-    rw [objsOfLine_of (mt, k.channel, data) _ objs hpn hlo]
-    exact hiff
+    have hobj : objsOfLine (mt, k.channel, data) = objs := objsOfLine_of (mt, k.channel, data) _ objs hpn hlo
+    -- the structure of `objs`
+    unfold lineObjs at hlo
+    cases hps : evenPairs data with
+    | none => simp [hps] at hlo
+    | some ps =>
+      simp only [hps, Option.map_some, Option.some.injEq] at hlo
+      refine ⟨(mt, k.channel, data), hcl, rfl, ⟨_, hpn⟩, ⟨ps, hps⟩, ?_⟩
+      rw [hobj]
+      have hnd1 : objs.Nodup := by
+        rw [← hlo]
+        by_cases hn : 0 < ps.length
+        · exact nodup_of_pairwise_lt (fun o : Obj => o.snap.beat) _ (objsOfPairs_sorted k.measure.toNat ps.length hn ps 0).1
+        · have : ps = [] := List.eq_nil_of_length_eq_zero (by omega)
+          subst this; simp [zipIdxFrom]
+      have hnd2 : (((cells.filter (sameLine k)).filter (fun c => decide (c.value ≠ ['0', '0']))).map objOfCell).Nodup := by
+        have hden' : (0 : Rat) < ((k.den : Nat) : Rat) := by exact_mod_cast hden
+        have hp := ((hslots k hk).1.filter (fun c => decide (c.value ≠ ['0', '0'])))
+        apply List.Nodup.map_on _ (hp.imp (fun {a b} hab e => hab (by rw [e])))
+        intro a ha b hb hab
+        have ha' := (List.mem_filter.mp (List.mem_filter.mp ha).1).2
+        have hb' := (List.mem_filter.mp (List.mem_filter.mp hb).1).2
+        obtain ⟨a1, a2, a3⟩ := (sameLine_iff k a).mp ha'
+        obtain ⟨b1, b2, b3⟩ := (sameLine_iff k b).mp hb'
+        simp only [objOfCell, Obj.mk.injEq, Snap.mk.injEq] at hab
+        obtain ⟨⟨_, hbeat, _⟩, hval⟩ := hab
+        rw [← a3, ← b3] at hbeat
+        have hidx : a.idx = b.idx := by
+          rw [div_left_inj' (ne_of_gt hden')] at hbeat
+          have : ((a.idx : Nat) : Rat) = ((b.idx : Nat) : Rat) := by linarith
+          exact_mod_cast this
+        -- same line, same slot, same value: the same cell
+        obtain ⟨am, ach, aden, aidx, aval⟩ := a
+        obtain ⟨bm, bch, bden, bidx, bval⟩ := b
+        simp only at a1 a2 a3 b1 b2 b3 hidx hval
+        subst hidx hval
+        rw [← a1, ← a2, ← a3, ← b1, ← b2, ← b3]
+      apply (List.perm_ext_iff_of_nodup hnd1 hnd2).mpr
+      intro o
+      rw [hiff o]
+      simp only [List.mem_map, List.mem_filter, decide_eq_true_eq, objOfCell]
+      constructor
+      · rintro ⟨c, hc, hv, rfl⟩
+        obtain ⟨e1, _, e3⟩ := (sameLine_iff k c).mp hc.2
+        exact ⟨c, ⟨hc, hv⟩, by rw [e1, e3]⟩
+      · rintro ⟨c, ⟨hc, hv⟩, rfl⟩
+        obtain ⟨e1, _, e3⟩ := (sameLine_iff k c).mp hc.2
+        exact ⟨c, hc, hv, by rw [e1, e3]⟩
+  -- all lines
   have hgen : ∀ ks : List WCell, (∀ k ∈ ks, k ∈ lineKeys cells) →
       ∃ notes, List.Forall₂ (fun l d => classify l = .ok (.note d.1 d.2.1 d.2.2)) (ks.map (lineOf cells)) notes ∧
-        ∀ ch o, o ∈ laneObjs notes ch ↔ ∃ k ∈ ks, k.channel = ch ∧ ∃ c ∈ cells.filter (sameLine k), c.value ≠ ['0', '0'] ∧
-          o = ⟨⟨(k.measure.toNat : Int), 4 * ((c.idx : Nat) : Rat) / ((k.den : Nat) : Rat), none⟩, c.value⟩ := by
+        (∀ d ∈ notes, (∃ m, parseNat d.1 = some m) ∧ (∃ ps, evenPairs d.2.2 = some ps) ∧ ∃ k ∈ lineKeys cells, d.2.1 = k.channel) ∧
+        ∀ ch, (laneObjs notes ch).Perm
+          (ks.flatMap (fun k => ((cells.filter (sameLine k)).filter (cellShown ch)).map objOfCell)) := by
     intro ks
     induction ks with
-    | nil => intro _; exact ⟨[], List.Forall₂.nil, by intro ch o; simp [laneObjs]⟩
+    | nil => intro _; exact ⟨[], List.Forall₂.nil, (by intro d hd; cases hd), (by intro ch; simp [laneObjs])⟩
     | cons k t ih =>
       intro hks
-      obtain ⟨notes, hf, hiff⟩ := ih (fun x hx => hks x (by simp [hx]))
-      obtain ⟨d, hcl, hdch, hdo⟩ := hline k (hks k (by simp))
-      refine ⟨d :: notes, List.Forall₂.cons hcl hf, ?_⟩
-      intro ch o
-      rw [laneObjs_cons, List.mem_append, hiff ch o]
-      constructor
-      · rintro (h | ⟨k', hk', h⟩)
-        · by_cases hc : d.2.1 = ch
-          · simp only [hc, if_true] at h
-            exact ⟨k, by simp, hdch ▸ hc, (hdo o).mp h⟩
-          · simp [hc] at h
-        · exact ⟨k', by simp [hk'], h⟩
-      · rintro ⟨k', hk', hch', h⟩
-        rcases List.mem_cons.mp hk' with rfl | hk'
-        · left
-          have hc : d.2.1 = ch := hdch.trans hch'
-          simp only [hc, if_true]
-          exact (hdo o).mpr h
-        · exact Or.inr ⟨k', hk', hch', h⟩
-  obtain ⟨notes, hf, hiff⟩ := hgen (lineKeys cells) (fun k hk => hk)
-  refine ⟨notes, foldlE_docStep_notes _ doc0 notes hf, ?_⟩
-  intro ch o
-  rw [hiff ch o]
-  constructor
-  · rintro ⟨k, _, hkc, c, hc, hv, rfl⟩
-    obtain ⟨hcm, hcs⟩ := List.mem_filter.mp hc
-    obtain ⟨e1, e2, e3⟩ := (sameLine_iff k c).mp hcs
-    exact ⟨c, hcm, by rw [← e2]; exact hkc, hv, by rw [e1, e3]⟩
-  · rintro ⟨c, hc, hcc, hv, rfl⟩
-    obtain ⟨k, hk, hs⟩ := hcov c hc
-    obtain ⟨e1, e2, e3⟩ := (sameLine_iff k c).mp hs
-    exact ⟨k, hk, by rw [e2]; exact hcc, c, List.mem_filter.mpr ⟨hc, hs⟩, hv, by rw [e1, e3]⟩
+      obtain ⟨notes, hf, hwfN, hperm⟩ := ih (fun x hx => hks x (by simp [hx]))
+      obtain ⟨d, hcl, hdch, hpn, hps, hdo⟩ := hline k (hks k (by simp))
+      refine ⟨d :: notes, List.Forall₂.cons hcl hf, ?_, ?_⟩
+      · intro x hx
+        rcases List.mem_cons.mp hx with rfl | hx
+        · exact ⟨hpn, hps, k, hks k (by simp), hdch⟩
+        · exact hwfN x hx
+      · intro ch
+        rw [laneObjs_cons, List.flatMap_cons]
+        refine List.Perm.append ?_ (hperm ch)
+        by_cases hc : d.2.1 = ch
+        · simp only [hc, if_true]
+          refine hdo.trans (List.Perm.of_eq ?_)
+          congr 1
+          apply List.filter_congr
+          intro c hcm
+          have := (sameLine_iff k c).mp (List.mem_filter.mp hcm).2
+          simp [cellShown, ← this.2.1, ← hdch, hc]
+        · simp only [hc, if_false]
+          apply List.Perm.of_eq
+          symm
+          rw [List.map_eq_nil_iff, List.filter_eq_nil_iff]
+          intro c hcm
+          have := (sameLine_iff k c).mp (List.mem_filter.mp hcm).2
+          simp only [cellShown, Bool.and_eq_true, decide_eq_true_eq, not_and]
+          intro e
+          exact absurd (hdch.trans (this.2.1.trans e)) hc
+  obtain ⟨notes, hf, hwfN, hperm⟩ := hgen (lineKeys cells) (fun k hk => hk)
+  refine ⟨notes, foldlE_docStep_notes _ doc0 notes hf, hwfN, ?_⟩
+  intro ch
+  refine (hperm ch).trans ?_
+  have hpart := partition_perm (lineKeys cells) hpw cells hcov
+  have h1 : ((cells.filter (cellShown ch)).map objOfCell).Perm
+      ((((lineKeys cells).flatMap (fun k => cells.filter (sameLine k))).filter (cellShown ch)).map objOfCell) :=
+    ((hpart.filter _).map _)
+  refine List.Perm.trans (List.Perm.of_eq ?_) h1.symm
+  rw [List.filter_flatMap, List.map_flatMap]
 
-/-! ### the written lane in position order -/
+/-! ### the header lines contribute no data lines -/
 
-theorem totalPre_obj : TotalPre (fun a b : Obj => !(b.snap.lt a.snap)) := by
-  constructor
-  · intro a b
-    simp only [Snap.lt, Bool.not_eq_true', Bool.or_eq_false_iff, Bool.and_eq_false_iff, decide_eq_false_iff_not]
-    grind
-  · intro a b c
-    simp only [Snap.lt, Bool.not_eq_true', Bool.or_eq_false_iff, Bool.and_eq_false_iff, decide_eq_false_iff_not]
-    grind
+/-- a line the header writer emits: empty, or `#` followed by a character that is neither a digit nor white space -/
+def HeaderLike (l : Bytes) : Prop := l = [] ∨ ∃ c rest, l = '#' :: c :: rest ∧ isDigit c = false ∧ isWs c = false
 
-theorem snap_lt_asymm {a b : Snap} (h : a.lt b = true) : b.lt a = false := by
-  simp only [Snap.lt, Bool.or_eq_true, Bool.and_eq_true, decide_eq_true_eq, Bool.or_eq_false_iff, Bool.and_eq_false_iff,
-    decide_eq_false_iff_not] at *
-  grind
+theorem lstrip_append_keep (A B : Bytes) : ∃ A', lstrip (A ++ B) = A' ++ B ∨ (lstrip (A ++ B) = lstrip B) := by
+  induction A with
+  | nil => exact ⟨[], Or.inr rfl⟩
+  | cons a t ih =>
+    by_cases ha : isWs a = true
+    · obtain ⟨A', h⟩ := ih
+      refine ⟨A', ?_⟩
+      simp only [List.cons_append, lstrip, ha, if_true]
+      exact h
+    · exact ⟨a :: t, Or.inl (by simp [lstrip, ha])⟩
 
-theorem strictAsc_facts : ∀ (l : List Obj), strictAsc l = true →
-    l.Pairwise (fun a b => (!(b.snap.lt a.snap)) = true) ∧
-    ∀ a ∈ l, ∀ b ∈ l, (!(b.snap.lt a.snap)) = true → (!(a.snap.lt b.snap)) = true → a = b
-  | [], _ => ⟨List.Pairwise.nil, by intro a ha; cases ha⟩
-  | [c], _ => ⟨by simp, by intro a ha b hb _ _; simp only [List.mem_singleton] at ha hb; rw [ha, hb]⟩
-  | c :: n :: rest, h => by
-    simp only [strictAsc, Bool.and_eq_true] at h
-    obtain ⟨ih1, ih2⟩ := strictAsc_facts (n :: rest) h.2
-    have hc : ∀ x ∈ n :: rest, c.snap.lt x.snap = true := by
-      intro x hx
-      rcases List.mem_cons.mp hx with rfl | hx
-      · exact h.1
-      · have hnx := (List.pairwise_cons.mp ih1).1 x hx
-        exact Snap.lt_of_lt_of_le h.1 ((Snap.lt_false_iff_le _ _).mp (by simpa using hnx))
-    refine ⟨List.pairwise_cons.mpr ⟨?_, ih1⟩, ?_⟩
-    · intro x hx
-      have := snap_lt_asymm (hc x hx)
-      simp [this]
-    · intro a ha b hb hab hba
-      rcases List.mem_cons.mp ha with ea | ha'
-      · rcases List.mem_cons.mp hb with eb | hb'
-        · rw [ea, eb]
-        · have := hc b hb'; rw [← ea] at this; simp [this] at hba
-      · rcases List.mem_cons.mp hb with eb | hb'
-        · have := hc a ha'; rw [← eb] at this; simp [this] at hab
-        · exact ih2 a ha' b hb' hab hba
+theorem strip_headerLike (c : Char) (rest : Bytes) (hc : isWs c = false) :
+    ∃ rest', strip ('#' :: c :: rest) = '#' :: c :: rest' := by
+  unfold strip
+  have hsharp : isWs '#' = false := by decide
+  have h1 : lstrip ('#' :: c :: rest) = '#' :: c :: rest := by simp [lstrip, hsharp]
+  rw [h1]
+  have hrev : ('#' :: c :: rest).reverse = rest.reverse ++ [c, '#'] := by simp
+  rw [hrev]
+  obtain ⟨A', h⟩ := lstrip_append_keep rest.reverse [c, '#']
+  rcases h with h | h
+  · rw [h]; exact ⟨A'.reverse, by simp⟩
+  · rw [h]
+    have : lstrip [c, '#'] = [c, '#'] := by simp [lstrip, hc]
+    rw [this]; exact ⟨[], by simp⟩
 
-/-- **The written lane sorted by position is the chart's sequence.**  Whatever order the lane's objects have in the
-file (several lines per measure, lines sorted by denominator, …): if the position-ordered sequence `target` has
-pairwise different positions (no two objects of the lane on one slot), sorting any arrangement of the same objects
-by position gives exactly `target`, and it passes the denotation's `strictAsc` check. -/
-theorem written_lane_sorted (os target : List Obj) (hp : os.Perm target) (hs : strictAsc target = true) :
-    sortObjs os = target ∧ strictAsc (sortObjs os) = true := by
-  obtain ⟨hpw, hanti⟩ := strictAsc_facts target hs
-  have h1 : sortObjs os = sortObjs target := by
-    unfold sortObjs
-    apply isort_eq_of_perm_on totalPre_obj hp
-    intro a ha b hb h1 h2
-    exact hanti a (hp.mem_iff.mp ha) b (hp.mem_iff.mp hb) h1 h2
-  have h2 : sortObjs target = target := by
-    unfold sortObjs
-    exact isort_of_sorted hpw
-  rw [h1, h2]
-  exact ⟨rfl, hs⟩
+/-- a header-like line is classified as a header entry or skipped: never a data line, never an error -/
+theorem classify_headerLike (l : Bytes) (h : HeaderLike l) :
+    (∃ k v, classify l = .ok (.header k v)) ∨ classify l = .ok .skip := by
+  rcases h with rfl | ⟨c, rest, rfl, hd, hw⟩
+  · right; rfl
+  · obtain ⟨rest', hs⟩ := strip_headerLike c rest hw
+    unfold classify
+    rw [hs]
+    simp only []
+    cases hsp : splitSpace1 ('#' :: c :: rest') with
+    | mk k v =>
+      cases v with
+      | some v => left; exact ⟨k.drop 1, v, rfl⟩
+      | none =>
+        right
+        -- no space: the command is the line itself
+        have hk : k = '#' :: c :: rest' := by
+          have : ∀ (s : Bytes) (a : Bytes), splitSpace1 s = (a, none) → a = s := by
+            intro s
+            induction s with
+            | nil => intro a h; simp [splitSpace1] at h; exact h
+            | cons x t ih =>
+              intro a h
+              simp only [splitSpace1] at h
+              by_cases hx : x = ' '
+              · simp [hx] at h
+              · simp only [hx, if_false] at h
+                cases ht : splitSpace1 t with
+                | mk a' b' =>
+                  simp only [ht, Prod.mk.injEq] at h
+                  obtain ⟨rfl, rfl⟩ := h
+                  rw [ih a' ht]
+          exact this _ _ hsp
+        subst hk
+        simp [hd]
 
-/-! ### the assembled statement (object level) -/
+/-- **The header lines contribute no data lines**: folding the lexer over header-like lines leaves the data lines
+collected so far untouched. -/
+theorem foldlE_docStep_header (ls : List Bytes) (h : ∀ l ∈ ls, HeaderLike l) :
+    ∀ doc0 : Doc, ∃ H, foldlE docStep doc0 ls = .ok ⟨H, doc0.notes⟩ := by
+  induction ls with
+  | nil => intro doc0; exact ⟨doc0.header, rfl⟩
+  | cons l t ih =>
+    intro doc0
+    rw [foldlE_cons]
+    rcases classify_headerLike l (h l (by simp)) with ⟨k, v, hc⟩ | hc
+    · simp only [docStep, hc]
+      exact ih (fun x hx => h x (by simp [hx])) _
+    · simp only [docStep, hc]
+      exact ih (fun x hx => h x (by simp [hx])) _
 
-/-- an item of one lane of the in-memory chart: a hit at a time, or a hold from a time to a time, with the id the
-writer chose for its sample -/
-inductive TAtom where
-  | hit (t : Rat) (id : Bytes)
-  | hold (t1 t2 : Rat) (id : Bytes)
+theorem foldlE_append {σ α} (f : σ → α → Except Err σ) (a b : List α) (s s' : σ) (h : foldlE f s a = .ok s') :
+    foldlE f s (a ++ b) = foldlE f s' b := by
+  induction a generalizing s with
+  | nil => simp only [foldlE] at h; cases h; rfl
+  | cons x t ih =>
+    rw [List.cons_append, foldlE_cons]
+    rw [foldlE_cons] at h
+    cases hx : f s x with
+    | error e => simp [hx] at h
+    | ok s1 => simp only [hx] at h ⊢; exact ih s1 h
 
-/-- a bare position -/
-def posOf (s : Snap) : Snap := ⟨s.measure, s.beat, none⟩
+/-- the lines the header writer emits are header-like when the `misc` keys start with a letter-like character -/
+theorem writeHeader_headerLike (c : WChart) (hl : List Bytes) (h : writeHeader c = .ok hl)
+    (hmisc : ∀ kv ∈ c.misc, ∃ a r, kv.1 = a :: r ∧ isDigit a = false ∧ isWs a = false) : ∀ l ∈ hl, HeaderLike l := by
+  unfold writeHeader at h
+  cases hb : c.bpms with
+  | nil => simp [hb] at h
+  | cons b0 rest =>
+    simp only [hb] at h
+    split at h
+    · cases h
+    · cases hs : showExact b0.bpm with
+      | none => simp [hs] at h
+      | some txt =>
+        simp only [hs, Except.ok.injEq] at h
+        subst h
+        intro l hl'
+        simp only [List.mem_append, List.mem_cons, List.mem_map, List.not_mem_nil, or_false] at hl'
+        rcases hl' with ((((rfl | rfl | rfl | rfl) | ⟨kv, hkv, rfl⟩) | rfl) | ⟨p, _, rfl⟩) | ⟨kv, _, rfl⟩
+        · exact Or.inr ⟨'T', _, rfl, by decide, by decide⟩
+        · exact Or.inr ⟨'A', _, rfl, by decide, by decide⟩
+        · exact Or.inr ⟨'B', _, rfl, by decide, by decide⟩
+        · exact Or.inr ⟨'P', _, rfl, by decide, by decide⟩
+        · obtain ⟨a, r, hk, hd, hw⟩ := hmisc kv hkv
+          exact Or.inr ⟨a, r ++ [' '] ++ kv.2, by simp [hk], hd, hw⟩
+        · by_cases he : c.lnEnd.isEmpty = true
+          · simp [he]; exact Or.inl rfl
+          · simp only [he, Bool.false_eq_true, if_false]
+            exact Or.inr ⟨'L', _, rfl, by decide, by decide⟩
+        · exact Or.inr ⟨'B', _, rfl, by decide, by decide⟩
+        · exact Or.inr ⟨'W', _, rfl, by decide, by decide⟩
 
-/-- the objects the writer emits for an item, at the positions `F` assigns to its times -/
-def TAtom.toAtom (F : Rat → Snap) (ln : Bytes) : TAtom → Atom
-  | .hit t id => .hit ⟨posOf (F t), id⟩
-  | .hold t1 t2 id => .hold ⟨posOf (F t1), id⟩ ⟨posOf (F t2), ln⟩
+/-! ### (2) pairwise different positions in time order, from monotone snapping -/
 
-def TAtom.idOk (ln : Bytes) : TAtom → Prop
-  | .hit _ id => id ≠ ln
-  | .hold _ _ id => id ≠ ln
-
-def TAtom.times : TAtom → List Rat
-  | .hit t _ => [t]
-  | .hold t1 t2 _ => [t1, t2]
-
-theorem timeAt_posOf (cs : List BcSnap) (s : Snap) : timeAt 0 cs (posOf s) = timeAt 0 cs s := by
+/-- `posFn` is monotone in the time (4/4 tempo list): a later time is never written at an earlier position -/
+theorem posFn_mono (cs : List BcSnap) (hwf : wfChanges cs = true) (hs : sortedSnaps cs = true)
+    (hgc : gridCompatible (grid defaultMaxDiv) cs = true) (hm4 : ∀ c ∈ cs, c.met = 4) (t1 t2 : Rat) (h0 : 0 ≤ t1) (h12 : t1 ≤ t2) :
+    (posFn cs t1).le (posFn cs t2) = true := by
+  have hg : GridOK defaultGrid := gridOK_grid (by decide)
+  have hgc' : gridCompatible defaultGrid.toList cs = true := by simpa [defaultGrid] using hgc
   cases cs with
-  | nil => rfl
+  | nil => simp [posFn, Snap.le, Snap.eqv]
   | cons c rest =>
-    simp only [timeAt]
-    have hgen : ∀ (T : Rat) (cur : BcSnap) (l : List BcSnap) (a b : Snap), a.measure = b.measure → a.beat = b.beat →
-        timeAtAux T cur l a = timeAtAux T cur l b := by
-      intro T cur l
-      induction l generalizing T cur with
-      | nil => intro a b h1 h2; simp [timeAtAux, snapDist, h1, h2]
-      | cons n l ih =>
-        intro a b h1 h2
-        have hle : n.snap.le a = n.snap.le b := by simp [Snap.le, Snap.lt, Snap.eqv, h1, h2]
-        simp only [timeAtAux, hle, snapDist, h1, h2]
-        split
-        · exact ih _ _ a b h1 h2
-        · rfl
-    exact hgen 0 c rest _ _ rfl rfl
+    obtain ⟨S1, S2, e1, e2, hle⟩ := snapAtAux_mono hg 4 rest 0 c t1 t2 hwf hs hgc' hm4 h0 h12
+    simp only [posFn, e1, e2, Except.toOption, Option.getD_some]
+    exact hle
 
-/-- **`bms_write_read`, assembled at the level of objects** (`_partial`: see below).
+theorem snap_lt_of_le_ne {a b : Snap} (h : a.le b = true) (hne : ¬ (a.measure = b.measure ∧ a.beat = b.beat)) : a.lt b = true := by
+  simp only [Snap.le, Snap.lt, Snap.eqv, Bool.or_eq_true, Bool.and_eq_true, decide_eq_true_eq] at h ⊢
+  rcases h with h | h
+  · exact h
+  · exact absurd h hne
 
-Tempo list `cs` as in `write_positions`; one lane `(ch, col)` of the chart, its items `items` in time order with
-sample ids different from the `#LNOBJ` id `ln`; `F` the position function of `write_positions` for all their
-times.  Suppose the data lines of the file give channel `ch` the objects `os` — ANY arrangement (`hos`) of the
-items' objects at the positions `F` assigns — and the position-ordered sequence has pairwise different positions
-(`hstrict`: no two objects of the lane on one slot, nothing inside a hold).  Then the by-the-book reading of the lane
-(`denoteLane`: sort by position, check, pair LNOBJ) is defined and returns exactly one hit per in-memory hit and one
-hold per in-memory hold, in the lane's column, whose by-the-book times `timeAt 0 cs` are the in-memory times
-exactly on the snap grid and within 1/192 beat (at the tempo in force) otherwise.
+theorem strictAsc_of_pairwise : ∀ (l : List Obj), l.Pairwise (fun a b => a.snap.lt b.snap = true) → strictAsc l = true
+  | [], _ => rfl
+  | [_], _ => rfl
+  | a :: b :: t, h => by
+    have h' := List.pairwise_cons.mp h
+    simp only [strictAsc, Bool.and_eq_true]
+    exact ⟨h'.1 b (by simp), strictAsc_of_pairwise (b :: t) h'.2⟩
 
-What is assembled here: `write_positions` (K1 as run), `written_lane_sorted`, `pairLane_atoms`.
-Exactly what is still outside (`_partial`):
-* `hch` — "the file's lines give channel `ch` an arrangement of these objects": proved as a membership equivalence
-  for the data lines (`written_objects`, `written_line_denotes`, `lineKeys_cover`) with the positions of
-  `slot_roundtrip` / `written_slot_time` / `newDens_dvd`; not yet as a permutation through `writeCells`, and the
-  header lines are not yet shown to contribute no data lines;
-* `hstrict` — follows from "no two objects in one (lane, slot)" + monotonicity of snapping (K1, not proved);
-* the header of the file (`readHeader` over all rendered header lines: the tempo table, `#BPM`, numbers are
-  `exbpm_table_readback`, `parseFloat_showExact`, `parseFloat_showFixed`) and the tempo list of the file
-  (`written_tempo_list`, any row order) are proved separately and not threaded through `denote` here. -/
-theorem bms_write_read_partial (cs : List BcSnap) (hwf : wfChanges cs = true) (hs : sortedSnaps cs = true)
-    (h0 : firstAtZero cs = true) (hgc : gridCompatible (grid defaultMaxDiv) cs = true) (hm : metronomeOk cs = true)
-    (ln : Bytes) (so : Bytes → Bytes) (notes : List (Bytes × Bytes × Bytes)) (ch : Bytes) (col : Nat)
-    (items : List TAtom) (hid : ∀ a ∈ items, a.idOk ln) (hts : ∀ a ∈ items, ∀ t ∈ a.times, 0 ≤ t) :
-    ∃ F : Rat → Snap,
-      snaps defaultGrid (tmOf 0 cs) (items.flatMap TAtom.times) = .ok ((items.flatMap TAtom.times).map F) ∧
-      ∀ os, channelObjs notes ch = some os →
-        os.Perm ((items.map (TAtom.toAtom F ln)).flatMap Atom.objs) →
-        strictAsc ((items.map (TAtom.toAtom F ln)).flatMap Atom.objs) = true →
-        denoteLane (some ln) so notes (ch, col) =
-          some ((items.map (TAtom.toAtom F ln)).flatMap (Atom.hits so col),
-                (items.map (TAtom.toAtom F ln)).flatMap (Atom.holds so col)) ∧
-        ∀ a ∈ items, ∀ t ∈ a.times,
-          rabs (timeAt 0 cs (posOf (F t)) - t) ≤ 1 / 192 * activeBeatLen 0 cs t ∧
-          (OnGridAt (grid defaultMaxDiv) 0 cs t → timeAt 0 cs (posOf (F t)) = t) := by
-  have hall : ∀ t ∈ items.flatMap TAtom.times, 0 ≤ t := by
-    intro t ht
-    obtain ⟨a, ha, hta⟩ := List.mem_flatMap.mp ht
-    exact hts a ha t hta
-  obtain ⟨F, hF, hFt⟩ := write_positions cs hwf hs h0 hgc hm _ hall
-  refine ⟨F, hF, ?_⟩
-  intro os hch hos hstrict
+/-- **`hstrict` from the chart**: objects written for times listed in time order (`ts` ascending), no two of them on
+one slot (pairwise different positions), are in strictly ascending position order — snapping is monotone. -/
+theorem positions_strict (cs : List BcSnap) (hwf : wfChanges cs = true) (hs : sortedSnaps cs = true)
+    (hgc : gridCompatible (grid defaultMaxDiv) cs = true) (hm4 : ∀ c ∈ cs, c.met = 4)
+    (tv : List (Rat × Bytes)) (h0 : ∀ p ∈ tv, 0 ≤ p.1) (hasc : tv.Pairwise (fun a b => a.1 ≤ b.1))
+    (hdist : tv.Pairwise (fun a b => ¬ ((posFn cs a.1).measure = (posFn cs b.1).measure ∧ (posFn cs a.1).beat = (posFn cs b.1).beat))) :
+    strictAsc (tv.map (fun p => (⟨posOf (posFn cs p.1), p.2⟩ : Obj))) = true := by
+  apply strictAsc_of_pairwise
+  rw [List.pairwise_map]
+  have hboth := hasc.and hdist
+  have hall : tv.Pairwise (fun a b => 0 ≤ a.1) := by
+    induction tv with
+    | nil => exact List.Pairwise.nil
+    | cons x t ih =>
+      refine List.pairwise_cons.mpr ⟨fun y _ => h0 x (by simp), ?_⟩
+      exact ih (fun p hp => h0 p (by simp [hp])) (List.pairwise_cons.mp hasc).2 (List.pairwise_cons.mp hdist).2
+        ((List.pairwise_cons.mp hboth).2)
+  refine (hboth.and hall).imp ?_
+  intro a b hab
+  obtain ⟨⟨hle, hne⟩, ha0⟩ := hab
+  have := posFn_mono cs hwf hs hgc hm4 a.1 b.1 ha0 hle
+  have hlt := snap_lt_of_le_ne this hne
+  simp only [posOf, Snap.lt] at hlt ⊢
+  exact hlt
+
+/-! ### the cells of a chart's rows are renderable, one per slot -/
+
+/-- what the chart must grant for the rows the writer builds: measures 000–999 (¬D36), normalised 4/4 positions,
+two-character base-36 channels and ids, and no two objects on one (channel, slot) -/
+structure RowsOK (rows : List WRow) : Prop where
+  meas : ∀ r ∈ rows, 0 ≤ r.snap.measure ∧ r.snap.measure < 1000
+  norm : ∀ r ∈ rows, r.snap.met = some 4 ∧ 0 ≤ r.snap.beat ∧ r.snap.beat < 4
+  chan : ∀ r ∈ rows, ∃ a b, r.channel = [a, b] ∧ isB36 a = true ∧ isB36 b = true
+  value : ∀ r ∈ rows, r.value.length = 2 ∧ r.value.all isB36 = true
+  nocoll : rows.Pairwise (fun a b => ¬ (a.channel = b.channel ∧ a.snap.measure = b.snap.measure ∧ a.snap.beat = b.snap.beat))
+
+theorem slotOfRow_facts (r : WRow) (hmet : r.snap.met = some 4) (hb0 : 0 ≤ r.snap.beat) (hb4 : r.snap.beat < 4) :
+    (slotOfRow r).den = r.snap.beat.den * 4 ∧ 0 < (slotOfRow r).den ∧ (slotOfRow r).num < (slotOfRow r).den := by
+  have hden : (slotOfRow r).den = r.snap.beat.den * 4 := by
+    simp only [slotOfRow, hmet, Option.getD_some]
+    have : ((4 : Rat).floor).toNat = 4 := by decide +kernel
+    rw [this]
+  refine ⟨hden, by rw [hden]; exact Nat.mul_pos r.snap.beat.den_pos (by decide), ?_⟩
+  rw [hden]
+  have hn0 : 0 ≤ r.snap.beat.num := Rat.num_nonneg.mpr hb0
+  have hq : r.snap.beat = (r.snap.beat.num : Rat) / ((r.snap.beat.den : Nat) : Rat) := (Rat.num_div_den r.snap.beat).symm
+  have hdpos : (0 : Rat) < ((r.snap.beat.den : Nat) : Rat) := by exact_mod_cast r.snap.beat.den_pos
+  have hlt : (r.snap.beat.num : Rat) < 4 * ((r.snap.beat.den : Nat) : Rat) := by
+    rw [hq, div_lt_iff₀ hdpos] at hb4; exact hb4
+  have hnum : (((slotOfRow r).num : Nat) : Int) = r.snap.beat.num := by
+    simp only [slotOfRow]; exact Int.toNat_of_nonneg hn0
+  have : (((slotOfRow r).num : Nat) : Rat) < ((r.snap.beat.den * 4 : Nat) : Rat) := by
+    have e : (((slotOfRow r).num : Nat) : Rat) = (r.snap.beat.num : Rat) := by
+      rw [← Int.cast_natCast, hnum]
+    rw [e]; push_cast; linarith
+  exact_mod_cast this
+
+/-- **The cells of renderable rows are renderable, one per slot, and stand for the rows' objects.** -/
+theorem cells_ok (rows : List WRow) (hR : RowsOK rows) :
+    (∀ c ∈ cellsOfRows rows, CellOK c) ∧
+    (∀ k ∈ lineKeys (cellsOfRows rows), ((cellsOfRows rows).filter (sameLine k)).Pairwise (fun a b => a.idx ≠ b.idx) ∧
+      ∀ c ∈ (cellsOfRows rows).filter (sameLine k), c.idx < k.den) ∧
+    (cellsOfRows rows).map cellObj = rows.map rowObj := by
+  have hrow : ∀ r ∈ rows, r.snap.met = some 4 ∧ 0 ≤ r.snap.beat := fun r hr => ⟨(hR.norm r hr).1, (hR.norm r hr).2.1⟩
+  have hobj : (cellsOfRows rows).map cellObj = rows.map rowObj := cells_objects Generated.BMS.lcmThreshold rows hrow
+  have hpos : ∀ s ∈ rows.map slotOfRow, 0 < s.den := by
+    intro s hs
+    obtain ⟨r, hr, rfl⟩ := List.mem_map.mp hs
+    exact (slotOfRow_facts r (hR.norm r hr).1 (hR.norm r hr).2.1 (hR.norm r hr).2.2).2.1
+  obtain ⟨hlen, hdvd⟩ := newDens_dvd Generated.BMS.lcmThreshold (rows.map slotOfRow) hpos
+  -- every cell: its row, its denominator
+  have hcell : ∀ c ∈ cellsOfRows rows, ∃ r ∈ rows, ∃ nd, (slotOfRow r).den ∣ nd ∧ 0 < nd ∧ c = cellOf (slotOfRow r) nd := by
+    intro c hc
+    simp only [cellsOfRows, List.mem_map] at hc
+    obtain ⟨⟨sl, nd⟩, hp, rfl⟩ := hc
+    rw [zip_zipIdxFrom (rows.map slotOfRow) 0] at hp
+    obtain ⟨q, hq, hqe⟩ := List.mem_map.mp hp
+    have := hdvd q hq
+    simp only [Prod.mk.injEq] at hqe
+    obtain ⟨e1, e2⟩ := hqe
+    have hsl : sl ∈ rows.map slotOfRow := by
+      rw [← e1]
+      have := (zipIdxFrom_mem (rows.map slotOfRow) 0 q.1 (List.of_mem_zip hq).1).2.2
+      exact this
+    obtain ⟨r, hr, hrs⟩ := List.mem_map.mp hsl
+    refine ⟨r, hr, nd, ?_, ?_, by rw [hrs]⟩
+    · rw [hrs, ← e1, ← e2]; exact this.1
+    · rw [← e2]; exact this.2
+  have hck : ∀ c ∈ cellsOfRows rows, CellOK c ∧ c.idx < c.den := by
+    intro c hc
+    obtain ⟨r, hr, nd, hd, hnd, rfl⟩ := hcell c hc
+    obtain ⟨_, hdp, hnum⟩ := slotOfRow_facts r (hR.norm r hr).1 (hR.norm r hr).2.1 (hR.norm r hr).2.2
+    have hidx := (slot_exact (slotOfRow r) nd hdp hd).2 hnum hnd
+    refine ⟨⟨?_, ?_, ?_, ?_⟩, ?_⟩
+    · simpa [cellOf, slotOfRow] using hR.meas r hr
+    · simpa [cellOf] using hnd
+    · simpa [cellOf, slotOfRow] using hR.chan r hr
+    · simpa [cellOf, slotOfRow] using hR.value r hr
+    · simpa [cellOf] using hidx
+  refine ⟨fun c hc => (hck c hc).1, ?_, hobj⟩
+  intro k _
   constructor
-  · obtain ⟨hsorted, hsa⟩ := written_lane_sorted os _ hos hstrict
-    have hwfA : ∀ a ∈ items.map (TAtom.toAtom F ln), a.wf ln := by
+  · -- same line + same slot would be two rows on one (channel, slot)
+    have hpwObj : ((cellsOfRows rows).map cellObj).Pairwise
+        (fun a b => ¬ (a.1 = b.1 ∧ a.2.1 = b.2.1 ∧ a.2.2.1 = b.2.2.1)) := by
+      rw [hobj, List.pairwise_map]
+      exact hR.nocoll.imp (fun {a b} h => by simpa [rowObj] using h)
+    rw [List.pairwise_map] at hpwObj
+    refine (hpwObj.filter (sameLine k)).imp_of_mem ?_
+    intro a b ha hb hab hidx
+    obtain ⟨a1, a2, a3⟩ := (sameLine_iff k a).mp (List.mem_filter.mp ha).2
+    obtain ⟨b1, b2, b3⟩ := (sameLine_iff k b).mp (List.mem_filter.mp hb).2
+    apply hab
+    simp only [cellObj]
+    exact ⟨a2.symm.trans b2, a1.symm.trans b1, by rw [hidx, ← a3, ← b3]⟩
+  · intro c hc
+    obtain ⟨hcm, hs⟩ := List.mem_filter.mp hc
+    obtain ⟨_, _, e3⟩ := (sameLine_iff k c).mp hs
+    rw [e3]; exact (hck c hcm).2
+
+/-! ### the whole file, read back by the book: every channel is an arrangement of the rows' objects -/
+
+/-- the row is visible in the file (a `00` id is the format's "nothing here") and lies on channel `ch` -/
+def rowShown (ch : Bytes) (r : WRow) : Bool := decide (r.channel = ch) && decide (r.value ≠ ['0', '0'])
+
+/-- the by-the-book object of a row: its id at its bare position -/
+def objOfRow (r : WRow) : Obj := ⟨posOf r.snap, r.value⟩
+
+theorem filter_map_through {α β γ δ} (f : α → γ) (g : β → γ) (P : γ → Bool) (G : γ → δ) (as : List α) (bs : List β)
+    (h : as.map f = bs.map g) :
+    (as.filter (fun a => P (f a))).map (fun a => G (f a)) = (bs.filter (fun b => P (g b))).map (fun b => G (g b)) := by
+  have e1 : (as.filter (fun a => P (f a))).map (fun a => G (f a)) = ((as.map f).filter P).map G := by
+    rw [List.filter_map, List.map_map]; rfl
+  have e2 : (bs.filter (fun b => P (g b))).map (fun b => G (g b)) = ((bs.map g).filter P).map G := by
+    rw [List.filter_map, List.map_map]; rfl
+  rw [e1, e2, h]
+
+/-- **The written file gives every channel an arrangement of exactly the rows' objects** — header lines included.
+For renderable rows (`RowsOK`) and header-like header lines: the whole file `header ++ [""] ++ data lines` parses;
+its header dict is the one of the header lines alone; every data line is well-formed and lies on the channel of a
+row; and for every channel `ch` the by-the-book objects of the file's lines are — up to order, with multiplicities —
+the rows of that channel (id ≠ `00`) at their positions. -/
+theorem written_file_objects (rows : List WRow) (hR : RowsOK rows) (hl : List Bytes) (hh : ∀ l ∈ hl, HeaderLike l) :
+    ∃ H notes, parseDoc (hl ++ [[]] ++ linesOfCells (cellsOfRows rows)) = .ok ⟨H, notes⟩ ∧
+      foldlE docStep ⟨[], []⟩ (hl ++ [[]]) = .ok ⟨H, []⟩ ∧
+      (∀ d ∈ notes, (∃ m, parseNat d.1 = some m) ∧ (∃ ps, evenPairs d.2.2 = some ps) ∧ ∃ r ∈ rows, d.2.1 = r.channel) ∧
+      ∀ ch, (laneObjs notes ch).Perm ((rows.filter (rowShown ch)).map objOfRow) := by
+  obtain ⟨hcell, hslots, hobj⟩ := cells_ok rows hR
+  have hh' : ∀ l ∈ hl ++ [[]], HeaderLike l := by
+    intro l hlm
+    rcases List.mem_append.mp hlm with h | h
+    · exact hh l h
+    · simp only [List.mem_singleton] at h; exact Or.inl h
+  obtain ⟨H, hH⟩ := foldlE_docStep_header (hl ++ [[]]) hh' ⟨[], []⟩
+  obtain ⟨notes, hN, hwfN, hperm⟩ := written_objects_perm (cellsOfRows rows) hcell hslots ⟨H, []⟩
+  refine ⟨H, notes, ?_, hH, ?_, ?_⟩
+  · unfold parseDoc
+    rw [foldlE_append docStep _ _ _ _ hH, hN]
+    simp
+  · intro d hd
+    obtain ⟨h1, h2, k, hk, hkc⟩ := hwfN d hd
+    refine ⟨h1, h2, ?_⟩
+    have hkm := (lineKeys_cover (cellsOfRows rows)).1 k hk
+    have : cellObj k ∈ (cellsOfRows rows).map cellObj := List.mem_map_of_mem hkm
+    rw [hobj] at this
+    obtain ⟨r, hr, hre⟩ := List.mem_map.mp this
+    refine ⟨r, hr, ?_⟩
+    rw [hkc]
+    have := congrArg (·.1) hre
+    simpa [rowObj, cellObj] using this.symm
+  · intro ch
+    refine (hperm ch).trans ?_
+    have := filter_map_through cellObj rowObj
+      (fun o => decide (o.1 = ch) && decide (o.2.2.2 ≠ ['0', '0']))
+      (fun o => (⟨⟨((o.2.1.toNat : Nat) : Int), o.2.2.1, none⟩, o.2.2.2⟩ : Obj)) (cellsOfRows rows) rows hobj
+    have e : ((cellsOfRows rows).filter (cellShown ch)).map objOfCell =
+        (rows.filter (rowShown ch)).map (fun b => (⟨⟨(((rowObj b).2.1.toNat : Nat) : Int), (rowObj b).2.2.1, none⟩, (rowObj b).2.2.2⟩ : Obj)) := this
+    rw [e]
+    apply List.Perm.of_eq
+    apply List.map_congr_left
+    intro r hr
+    have hm := (hR.meas r (List.mem_filter.mp hr).1).1
+    simp only [rowObj, objOfRow, posOf, Int.toNat_of_nonneg hm]
+
+/-! ### one lane of the written file, read back by the book -/
+
+theorem channelOf_mem (lay : Layout) (col : Nat) (ch : Bytes) (h : channelOf lay col = some ch) : (ch, col) ∈ lay.lanes := by
+  simp only [channelOf, Option.map_eq_some_iff] at h
+  obtain ⟨p, hp, rfl⟩ := h
+  have hm := List.mem_of_find?_eq_some hp
+  have he := List.find?_some hp
+  simp only [decide_eq_true_eq] at he
+  rw [← he]
+  exact List.mem_reverse.mp hm
+
+/-- on a well-formed layout, a lane's channel is the channel of exactly its own column -/
+theorem channelOf_iff (lay : Layout) (hlay : LayoutOK lay) (lane : Bytes × Nat) (hl : lane ∈ lay.lanes) (col : Nat) :
+    channelOf lay col = some lane.1 ↔ col = lane.2 := by
+  constructor
+  · intro h
+    have hm := channelOf_mem lay col lane.1 h
+    have h1 := hlay.mem (lane.1, col) hm
+    have h2 := hlay.mem lane hl
+    simp only at h1
+    rw [h1] at h2
+    injection h2
+  · intro e
+    subst e
+    cases hc : channelOf lay lane.2 with
+    | none =>
+      simp only [channelOf, Option.map_eq_none_iff, List.find?_eq_none] at hc
+      have := hc lane (List.mem_reverse.mpr hl)
+      simp at this
+    | some ch =>
+      have hm := channelOf_mem lay lane.2 ch hc
+      have h1 := hlay.mem (ch, lane.2) hm
+      have h2 := hlay.mem lane hl
+      rw [hlay.inj ch lane.1 lane.2 h1 h2]
+
+/-- the (time, id) pairs an item puts on its lane -/
+def TAtom.tv (ln : Bytes) : TAtom → List (Rat × Bytes)
+  | .hit t id => [(t, id)]
+  | .hold t1 t2 id => [(t1, id), (t2, ln)]
+
+theorem atoms_tv (F : Rat → Snap) (ln : Bytes) (items : List TAtom) :
+    (items.map (TAtom.toAtom F ln)).flatMap Atom.objs =
+      (items.flatMap (TAtom.tv ln)).map (fun p => (⟨posOf (F p.1), p.2⟩ : Obj)) := by
+  induction items with
+  | nil => rfl
+  | cons a t ih =>
+    simp only [List.map_cons, List.flatMap_cons, List.map_append, ih]
+    cases a <;> rfl
+
+theorem tv_times (ln : Bytes) (items : List TAtom) :
+    (items.flatMap (TAtom.tv ln)).map (·.1) = items.flatMap TAtom.times := by
+  induction items with
+  | nil => rfl
+  | cons a t ih =>
+    simp only [List.flatMap_cons, List.map_append, ih]
+    cases a <;> rfl
+
+/-- the items of the chart on one column: its hits, then its holds -/
+def laneItems (c : WChart) (dflt : Bytes) (col : Nat) : List TAtom :=
+  (c.hits.filter (fun h => h.col = col)).map (fun h => TAtom.hit h.offset (sampleId c.samples dflt h.sample)) ++
+  (c.holds.filter (fun h => h.col = col)).map (fun h => TAtom.hold h.offset h.tail (sampleId c.samples dflt h.sample))
+
+theorem flatMap_pair_perm {α β} (f g : α → β) (l : List α) : (l.flatMap (fun x => [f x, g x])).Perm (l.map f ++ l.map g) := by
+  induction l with
+  | nil => simp
+  | cons a t ih =>
+    simp only [List.flatMap_cons, List.map_cons, List.cons_append, List.nil_append]
+    refine List.Perm.cons _ ?_
+    exact (List.Perm.cons _ ih).trans (List.perm_middle.symm)
+
+/-- the rows of a lane's channel are the lane's items: hits and hold heads under their sample ids, hold tails
+under the `#LNOBJ` id, all at the positions `posFn` of their times; no tempo row lies on a lane's channel -/
+theorem lane_rows_perm (cs : List BcSnap) (lay : Layout) (hlay : LayoutOK lay) (dflt : Bytes) (c : WChart)
+    (hok : BmsOk cs lay c) (hv : ∀ r ∈ bmsNoteRows cs lay dflt c, r.value ≠ ['0', '0'])
+    (lane : Bytes × Nat) (hl : lane ∈ lay.lanes) :
+    (((bmsNoteRows cs lay dflt c ++ bmsTempoRows cs lay c).filter (rowShown lane.1)).map objOfRow).Perm
+      (((laneItems c dflt lane.2).map (TAtom.toAtom (posFn cs) c.lnEnd)).flatMap Atom.objs) := by
+  have hnt := hlay.not_tempo lane hl
+  simp only [Bool.or_eq_false_iff, decide_eq_false_iff_not] at hnt
+  have htempo : (bmsTempoRows cs lay c).filter (rowShown lane.1) = [] := by
+    rw [List.filter_eq_nil_iff]
+    intro r hr
+    simp only [bmsTempoRows, List.mem_map] at hr
+    obtain ⟨p, _, rfl⟩ := hr
+    simp only [rowShown, Bool.and_eq_true, decide_eq_true_eq, not_and]
+    intro e; exact absurd e.symm hnt.2
+  have hchan : ∀ col, (channelOf lay col).isSome = true → ((channelOf lay col).getD [] = lane.1 ↔ col = lane.2) := by
+    intro col hsome
+    obtain ⟨ch, hch⟩ := Option.isSome_iff_exists.mp hsome
+    rw [← channelOf_iff lay hlay lane hl col, hch]
+    simp
+  have hmemN : ∀ r, r ∈ bmsNoteRows cs lay dflt c → r.value ≠ ['0', '0'] := hv
+  -- the three blocks of note rows
+  have f1 : (c.hits.map (fun h => (⟨posFn cs h.offset, (channelOf lay h.col).getD [], sampleId c.samples dflt h.sample⟩ : WRow))).filter (rowShown lane.1)
+      = (c.hits.filter (fun h => h.col = lane.2)).map (fun h => (⟨posFn cs h.offset, (channelOf lay h.col).getD [], sampleId c.samples dflt h.sample⟩ : WRow)) := by
+    rw [List.filter_map]
+    congr 1
+    apply List.filter_congr
+    intro h hh
+    have hval := hmemN ⟨posFn cs h.offset, (channelOf lay h.col).getD [], sampleId c.samples dflt h.sample⟩
+      (by simp only [bmsNoteRows, List.mem_append, List.mem_map]; exact Or.inl (Or.inl ⟨h, hh, rfl⟩))
+    have := hchan h.col (hok.cols.1 h hh)
+    simp only [Function.comp, rowShown, hval, ne_eq, not_false_eq_true, decide_true, Bool.and_true]
+    exact decide_eq_decide.mpr this
+  have f2 : (c.holds.map (fun h => (⟨posFn cs h.offset, (channelOf lay h.col).getD [], sampleId c.samples dflt h.sample⟩ : WRow))).filter (rowShown lane.1)
+      = (c.holds.filter (fun h => h.col = lane.2)).map (fun h => (⟨posFn cs h.offset, (channelOf lay h.col).getD [], sampleId c.samples dflt h.sample⟩ : WRow)) := by
+    rw [List.filter_map]
+    congr 1
+    apply List.filter_congr
+    intro h hh
+    have hval := hmemN ⟨posFn cs h.offset, (channelOf lay h.col).getD [], sampleId c.samples dflt h.sample⟩
+      (by simp only [bmsNoteRows, List.mem_append, List.mem_map]; exact Or.inl (Or.inr ⟨h, hh, rfl⟩))
+    have := hchan h.col (hok.cols.2 h hh)
+    simp only [Function.comp, rowShown, hval, ne_eq, not_false_eq_true, decide_true, Bool.and_true]
+    exact decide_eq_decide.mpr this
+  have f3 : (c.holds.map (fun h => (⟨posFn cs h.tail, (channelOf lay h.col).getD [], c.lnEnd⟩ : WRow))).filter (rowShown lane.1)
+      = (c.holds.filter (fun h => h.col = lane.2)).map (fun h => (⟨posFn cs h.tail, (channelOf lay h.col).getD [], c.lnEnd⟩ : WRow)) := by
+    rw [List.filter_map]
+    congr 1
+    apply List.filter_congr
+    intro h hh
+    have hval := hmemN ⟨posFn cs h.tail, (channelOf lay h.col).getD [], c.lnEnd⟩
+      (by simp only [bmsNoteRows, List.mem_append, List.mem_map]; exact Or.inr ⟨h, hh, rfl⟩)
+    have := hchan h.col (hok.cols.2 h hh)
+    simp only [Function.comp, rowShown, hval, ne_eq, not_false_eq_true, decide_true, Bool.and_true]
+    exact decide_eq_decide.mpr this
+  rw [List.filter_append, htempo, List.append_nil]
+  unfold bmsNoteRows
+  rw [List.filter_append, List.filter_append, f1, f2, f3]
+  simp only [laneItems, List.map_append, List.map_map, List.flatMap_append]
+  have e1 : ∀ l : List HitOut, (l.map (TAtom.toAtom (posFn cs) c.lnEnd ∘ fun h => TAtom.hit h.offset (sampleId c.samples dflt h.sample))).flatMap Atom.objs
+      = l.map (objOfRow ∘ fun h => (⟨posFn cs h.offset, (channelOf lay h.col).getD [], sampleId c.samples dflt h.sample⟩ : WRow)) := by
+    intro l
+    induction l with
+    | nil => rfl
+    | cons a t ih => simp only [List.map_cons, List.flatMap_cons, ih]; rfl
+  have e2 : ∀ l : List WHold, (l.map (TAtom.toAtom (posFn cs) c.lnEnd ∘ fun h => TAtom.hold h.offset h.tail (sampleId c.samples dflt h.sample))).flatMap Atom.objs
+      = l.flatMap (fun h => [objOfRow (⟨posFn cs h.offset, (channelOf lay h.col).getD [], sampleId c.samples dflt h.sample⟩ : WRow),
+                             objOfRow (⟨posFn cs h.tail, (channelOf lay h.col).getD [], c.lnEnd⟩ : WRow)]) := by
+    intro l
+    induction l with
+    | nil => rfl
+    | cons a t ih => simp only [List.map_cons, List.flatMap_cons, ih]; rfl
+  rw [e1, e2, List.append_assoc]
+  refine List.Perm.append_left _ ?_
+  exact (flatMap_pair_perm _ _ _).symm
+
+/-- the position `posFn` assigns to a time denotes that time: exactly on the snap grid, within 1/192 beat (at the
+tempo in force) off it (`write_positions` for the pointwise position function) -/
+theorem posFn_time (cs : List BcSnap) (hwf : wfChanges cs = true) (hs : sortedSnaps cs = true)
+    (h0 : firstAtZero cs = true) (hgc : gridCompatible (grid defaultMaxDiv) cs = true) (hm : metronomeOk cs = true)
+    (t : Rat) (ht : 0 ≤ t) :
+    rabs (timeAt 0 cs (posOf (posFn cs t)) - t) ≤ 1 / 192 * activeBeatLen 0 cs t ∧
+    (OnGridAt (grid defaultMaxDiv) 0 cs t → timeAt 0 cs (posOf (posFn cs t)) = t) := by
+  obtain ⟨F, hF, hFt⟩ := write_positions cs hwf hs h0 hgc hm [t] (by simpa using ht)
+  have hp := (snaps_pointwise cs hwf hs h0 hgc hm [t] (by simpa using ht)).1
+  rw [hF] at hp
+  have e : F t = posFn cs t := by simpa using hp
+  rw [timeAt_posOf, ← e]
+  exact (hFt t (by simp)).2
+
+/-- **One lane of the written file, by the book.**  `rows` = the rows the writer builds for the chart
+(`writeCells_eq`), renderable and collision-free (`RowsOK`: ¬D36; no two objects on one slot — the property's own precondition), note ids different from `00`; `items` = the
+lane's hits and holds in time order, one after the other (`hasc`: nothing of the lane starts inside a hold — ¬D37),
+sample ids different from the `#LNOBJ` id.  Whenever the file's lines give the lane's channel an arrangement `os` of
+the rows of that channel (`written_file_objects`), the by-the-book reading of the lane — sort by position, check
+that positions are pairwise different, pair `#LNOBJ` — is defined and returns exactly one hit per in-memory hit and
+one hold per in-memory hold, in the lane's column, at positions whose by-the-book times are the in-memory times
+exactly on the snap grid and within 1/192 beat (at the tempo in force) otherwise.
+Both named hypotheses of `bms_write_read_partial` are discharged here: `hch` by `written_file_objects` +
+`lane_rows_perm`, `hstrict` by `positions_strict` (monotone snapping) from the rows' `nocoll`. -/
+theorem written_lane_denotes (cs : List BcSnap) (hwf : wfChanges cs = true) (hs : strictSnaps cs = true)
+    (h0 : firstAtZero cs = true) (hgc : gridCompatible (grid defaultMaxDiv) cs = true) (hm : metronomeOk cs = true)
+    (lay : Layout) (hlay : LayoutOK lay) (dflt : Bytes) (c : WChart) (hok : BmsOk cs lay c)
+    (hR : RowsOK (bmsNoteRows cs lay dflt c ++ bmsTempoRows cs lay c))
+    (hv : ∀ r ∈ bmsNoteRows cs lay dflt c, r.value ≠ ['0', '0'])
+    (lane : Bytes × Nat) (hl : lane ∈ lay.lanes)
+    (items : List TAtom) (hitems : items.Perm (laneItems c dflt lane.2)) (hid : ∀ a ∈ items, a.idOk c.lnEnd)
+    (hasc : (items.flatMap TAtom.times).Pairwise (fun a b => a ≤ b))
+    (so : Bytes → Bytes) (notes : List (Bytes × Bytes × Bytes)) (os : List Obj)
+    (hos : channelObjs notes lane.1 = some os)
+    (hperm : os.Perm (((bmsNoteRows cs lay dflt c ++ bmsTempoRows cs lay c).filter (rowShown lane.1)).map objOfRow)) :
+    denoteLane (some c.lnEnd) so notes lane =
+      some ((items.map (TAtom.toAtom (posFn cs) c.lnEnd)).flatMap (Atom.hits so lane.2),
+            (items.map (TAtom.toAtom (posFn cs) c.lnEnd)).flatMap (Atom.holds so lane.2)) ∧
+    ∀ a ∈ items, ∀ t ∈ a.times,
+      rabs (timeAt 0 cs (posOf (posFn cs t)) - t) ≤ 1 / 192 * activeBeatLen 0 cs t ∧
+      (OnGridAt (grid defaultMaxDiv) 0 cs t → timeAt 0 cs (posOf (posFn cs t)) = t) := by
+  have hsorted := sortedSnaps_of_strict hs
+  -- the items' times are in the tempo list's range
+  have hts : ∀ a ∈ items, ∀ t ∈ a.times, 0 ≤ t := by
+    intro a ha t ht
+    have ha' := hitems.mem_iff.mp ha
+    simp only [laneItems, List.mem_append, List.mem_map, List.mem_filter] at ha'
+    rcases ha' with ⟨h, ⟨hh, _⟩, rfl⟩ | ⟨h, ⟨hh, _⟩, rfl⟩
+    · simp only [TAtom.times, List.mem_singleton] at ht
+      rw [ht]; exact hok.times.1 h hh
+    · simp only [TAtom.times, List.mem_cons, List.not_mem_nil, or_false] at ht
+      rcases ht with e | e
+      · rw [e]; exact (hok.times.2.1 h hh).1
+      · rw [e]; exact (hok.times.2.1 h hh).2
+  -- the target sequence and the arrangement
+  have hrows := lane_rows_perm cs lay hlay dflt c hok hv lane hl
+  have htarget : os.Perm ((items.map (TAtom.toAtom (posFn cs) c.lnEnd)).flatMap Atom.objs) :=
+    (hperm.trans hrows).trans ((hitems.map _).flatMap_right _).symm
+  -- pairwise different positions, from the rows
+  have hpwRows : (((bmsNoteRows cs lay dflt c ++ bmsTempoRows cs lay c).filter (rowShown lane.1)).map objOfRow).Pairwise
+      (fun a b => ¬ (a.snap.measure = b.snap.measure ∧ a.snap.beat = b.snap.beat)) := by
+    rw [List.pairwise_map]
+    refine (hR.nocoll.filter (rowShown lane.1)).imp_of_mem ?_
+    intro a b ha hb hab h
+    have ca := (List.mem_filter.mp ha).2
+    have cb := (List.mem_filter.mp hb).2
+    simp only [rowShown, Bool.and_eq_true, decide_eq_true_eq] at ca cb
+    exact hab ⟨ca.1.trans cb.1.symm, by simpa [objOfRow, posOf] using h⟩
+  have hpwT : ((items.map (TAtom.toAtom (posFn cs) c.lnEnd)).flatMap Atom.objs).Pairwise
+      (fun a b => ¬ (a.snap.measure = b.snap.measure ∧ a.snap.beat = b.snap.beat)) := by
+    refine ((hrows.trans ((hitems.map _).flatMap_right _).symm).pairwise_iff ?_).mp hpwRows
+    intro a b h h'
+    exact h ⟨h'.1.symm, h'.2.symm⟩
+  have hstrict : strictAsc ((items.map (TAtom.toAtom (posFn cs) c.lnEnd)).flatMap Atom.objs) = true := by
+    rw [atoms_tv] at hpwT ⊢
+    apply positions_strict cs hwf hsorted hgc hok.met4
+    · intro p hp
+      have : p.1 ∈ items.flatMap TAtom.times := by
+        rw [← tv_times c.lnEnd]; exact List.mem_map_of_mem hp
+      obtain ⟨a, ha, hta⟩ := List.mem_flatMap.mp this
+      exact hts a ha _ hta
+    · have := hasc
+      rw [← tv_times c.lnEnd, List.pairwise_map] at this
+      exact this
+    · rw [List.pairwise_map] at hpwT
+      exact hpwT.imp (fun {a b} h => by simpa [posOf] using h)
+  constructor
+  · obtain ⟨hso, _⟩ := written_lane_sorted os _ htarget hstrict
+    have hwfA : ∀ a ∈ items.map (TAtom.toAtom (posFn cs) c.lnEnd), a.wf c.lnEnd := by
       intro a ha
       obtain ⟨x, hx, rfl⟩ := List.mem_map.mp ha
       have := hid x hx
@@ -1043,50 +839,471 @@ theorem bms_write_read_partial (cs : List BcSnap) (hwf : wfChanges cs = true) (h
       | hit t id => exact this
       | hold t1 t2 id => exact ⟨this, rfl⟩
     unfold denoteLane
-    simp only [hch, hsorted, hstrict, if_true]
-    exact pairLane_atoms ln so col _ hwfA
+    simp only [hos, hso, hstrict, if_true]
+    exact pairLane_atoms c.lnEnd so lane.2 _ hwfA
   · intro a ha t ht
-    have := hFt t (List.mem_flatMap.mpr ⟨a, ha, ht⟩)
-    rw [timeAt_posOf]
-    exact ⟨this.2.1, this.2.2⟩
+    exact posFn_time cs hwf hsorted h0 hgc hm t (hts a ha t ht)
 
-/-! ### D06 -/
+/-! ### the tempo objects of the written file, read back by the book -/
 
-/-- **D06.** Tempo 100/3 is written as `#BPM02 33.333`: the written file denotes a tempo of 33333/1000, and the
-object one measure after the tempo change — at 11200 ms in memory — lies at 11200 + 800/11111 ms in the file
-(every later measure adds the same drift).  Grid of 4; both objects sit on measure lines. -/
-theorem bpm_3f_counterexample :
-    let chart : WChart := { title := "t".toList, artist := "a".toList, version := "1".toList, lnEnd := "ZZ".toList,
-                            samples := [], misc := [], bpms := [⟨120, 4, 0⟩, ⟨100 / 3, 4, 4000⟩],
-                            hits := [⟨1, [], 4000⟩, ⟨1, [], 11200⟩], holds := [] }
-    (match layoutOf "BME", bookLayout "BME" with
-     | some l, some b =>
-       (match write (grid 4).toArray l "01".toList chart with
-        | .ok lines =>
-          (match denote b lines with
-           | some d => decide (d.hits.map (·.offset) = [4000, 11200 + 800 / 11111] ∧
-                               d.tempo.map (·.bpm) = [120, 120, 33333 / 1000]) && lines.contains "#BPM02 33.333".toList
-           | none => false)
-        | .error _ => false)
-     | _, _ => false) = true := by
+/-- a tempo point's own stored time is sent to the tempo point's own position -/
+theorem posFn_own (cs : List BcSnap) (hwf : wfChanges cs = true) (hs : strictSnaps cs = true) :
+    ∀ p ∈ cs.zip (tmOf 0 cs), posFn cs p.2.offset = p.1.snap := by
+  have hg : GridOK defaultGrid := gridOK_grid (by decide)
+  cases cs with
+  | nil => intro p hp; cases hp
+  | cons c rest =>
+    obtain ⟨ha, hb⟩ := snapAtAux_at_change hg rest 0 c hwf hs
+    intro p hp
+    simp only [tmOf, List.zip_cons_cons, List.mem_cons] at hp
+    rcases hp with rfl | hp
+    · simp [posFn, ha, Except.toOption]
+    · simp [posFn, hb p hp, Except.toOption]
+
+theorem zipIdxFrom_map' {α β} (f : α → β) (l : List α) : ∀ k, zipIdxFrom k (l.map f) = (zipIdxFrom k l).map (fun p => (p.1, f p.2)) := by
+  induction l with
+  | nil => intro k; rfl
+  | cons a t ih => intro k; simp only [List.map_cons, zipIdxFrom, ih]
+
+theorem zipIdxFrom_succ {α} (l : List α) : ∀ k, (zipIdxFrom k l).map (fun p => (p.1 + 1, p.2)) = zipIdxFrom (k + 1) l := by
+  induction l with
+  | nil => intro k; rfl
+  | cons a t ih => intro k; simp only [zipIdxFrom, List.map_cons, ih]
+
+/-- the tempo rows' objects: row `i` (counted from 1) is the object `base36 i` at the position of its own offset -/
+theorem tempoRows_objs (cs : List BcSnap) (lay : Layout) (c : WChart) :
+    (bmsTempoRows cs lay c).map objOfRow =
+      (zipIdxFrom 1 c.bpms).map (fun p => (⟨posOf (posFn cs p.2.offset), base36 p.1⟩ : Obj)) := by
+  unfold bmsTempoRows
+  rw [zipIdxFrom_map', List.map_map, List.map_map, ← zipIdxFrom_succ c.bpms 0, List.map_map]
+  rfl
+
+theorem noteRows_channel (cs : List BcSnap) (lay : Layout) (dflt : Bytes) (c : WChart) (hok : BmsOk cs lay c) :
+    ∀ r ∈ bmsNoteRows cs lay dflt c, ∃ col, (r.channel, col) ∈ lay.lanes := by
+  intro r hr
+  have key : ∀ col, (channelOf lay col).isSome = true → ((channelOf lay col).getD [], col) ∈ lay.lanes := by
+    intro col hsome
+    obtain ⟨ch, hch⟩ := Option.isSome_iff_exists.mp hsome
+    rw [hch]; exact channelOf_mem lay col ch hch
+  simp only [bmsNoteRows, List.mem_append, List.mem_map] at hr
+  rcases hr with (⟨h, hh, rfl⟩ | ⟨h, hh, rfl⟩) | ⟨h, hh, rfl⟩
+  · exact ⟨h.col, key _ (hok.cols.1 h hh)⟩
+  · exact ⟨h.col, key _ (hok.cols.2 h hh)⟩
+  · exact ⟨h.col, key _ (hok.cols.2 h hh)⟩
+
+/-- **The tempo list of the written file, by the book.**  Tempo rows of the chart in ANY order (`hp`), every tempo a
+three-decimal number (¬D06), fewer than 1295 of them; `exbpms` a tempo table that looks every id `base36 i` up as
+the (three-decimal) tempo of row `i` — what `_read_file_header` builds from the written `#BPMxx` lines
+(`exbpm_table_readback`).  Whenever the file's lines give channel 03 and channel 08 arrangements of the rows on
+those channels (`written_file_objects`), the by-the-book tempo list is defined and is the `#BPM` header tempo at
+measure 0 followed by exactly the in-memory tempo list `cs`. -/
+theorem written_tempo_denotes (cs : List BcSnap) (hwf : wfChanges cs = true) (hs : strictSnaps cs = true)
+    (h0 : firstAtZero cs = true) (hgc : gridCompatible (grid defaultMaxDiv) cs = true) (hm : metronomeOk cs = true)
+    (lay : Layout) (hlay : LayoutOK lay) (dflt : Bytes) (c : WChart) (hp : c.bpms.Perm (tmOf 0 cs)) (hok : BmsOk cs lay c)
+    (hdec : ∀ b ∈ c.bpms, roundDec 3 b.bpm = b.bpm) (hn : c.bpms.length < 1295)
+    (exbpms : Dict Rat) (hex : ∀ p ∈ zipIdxFrom 1 c.bpms, dictGet? exbpms (base36 p.1) = some (roundDec 3 p.2.bpm))
+    (bpm0 : Rat) (notes : List (Bytes × Bytes × Bytes)) (o3 o8 : List Obj)
+    (h3 : channelObjs notes lay.bpmCh = some o3)
+    (hp3 : o3.Perm (((bmsNoteRows cs lay dflt c ++ bmsTempoRows cs lay c).filter (rowShown lay.bpmCh)).map objOfRow))
+    (h8 : channelObjs notes lay.exbpmCh = some o8)
+    (hp8 : o8.Perm (((bmsNoteRows cs lay dflt c ++ bmsTempoRows cs lay c).filter (rowShown lay.exbpmCh)).map objOfRow)) :
+    denoteTempo lay notes exbpms bpm0 = some (⟨bpm0, 4, ⟨0, 0, some 4⟩⟩ :: cs) := by
+  have hsorted := sortedSnaps_of_strict hs
+  have hne : cs ≠ [] := by intro e; subst e; simp [firstAtZero] at h0
+  have hnote := noteRows_channel cs lay dflt c hok
+  -- nothing on channel 03
+  have e3 : (bmsNoteRows cs lay dflt c ++ bmsTempoRows cs lay c).filter (rowShown lay.bpmCh) = [] := by
+    rw [List.filter_eq_nil_iff]
+    intro r hr
+    simp only [rowShown, Bool.and_eq_true, decide_eq_true_eq, not_and]
+    intro e
+    rcases List.mem_append.mp hr with hr | hr
+    · obtain ⟨col, hmem⟩ := hnote r hr
+      have := hlay.not_tempo _ hmem
+      simp [e] at this
+    · simp only [bmsTempoRows, List.mem_map] at hr
+      obtain ⟨p, _, rfl⟩ := hr
+      exact absurd e.symm hlay.tempo_ne
+  -- channel 08 = the tempo rows
+  have e8 : (bmsNoteRows cs lay dflt c ++ bmsTempoRows cs lay c).filter (rowShown lay.exbpmCh) = bmsTempoRows cs lay c := by
+    rw [List.filter_append]
+    have a1 : (bmsNoteRows cs lay dflt c).filter (rowShown lay.exbpmCh) = [] := by
+      rw [List.filter_eq_nil_iff]
+      intro r hr
+      simp only [rowShown, Bool.and_eq_true, decide_eq_true_eq, not_and]
+      intro e
+      obtain ⟨col, hmem⟩ := hnote r hr
+      have := hlay.not_tempo _ hmem
+      simp [e] at this
+    have a2 : (bmsTempoRows cs lay c).filter (rowShown lay.exbpmCh) = bmsTempoRows cs lay c := by
+      rw [List.filter_eq_self]
+      intro r hr
+      simp only [bmsTempoRows, List.mem_map] at hr
+      obtain ⟨p, hpm, rfl⟩ := hr
+      have hlt := (zipIdxFrom_mem _ 0 p hpm).2.1
+      simp only [List.length_map] at hlt
+      have := (base36_roundtrip (p.1 + 1) (by omega)).2.2.2 (by omega)
+      simp [rowShown, this]
+    rw [a1, a2, List.nil_append]
+  rw [e3] at hp3
+  have ho3 : o3 = [] := List.Perm.eq_nil hp3
+  rw [e8, tempoRows_objs] at hp8
+  -- every channel-08 object is a tempo of the table
+  let g' : Obj → BcSnap := fun o => ⟨(dictGet? exbpms o.id).getD 0, 4, { o.snap with met := some 4 }⟩
+  have hpos : ∀ b ∈ c.bpms, 0 < b.bpm := by
+    intro b hb
+    have hb' := hp.mem_iff.mp hb
+    have hz2 : (cs.zip (tmOf 0 cs)).map (·.2) = tmOf 0 cs := List.map_snd_zip (by rw [tmOf_length])
+    rw [← hz2] at hb'
+    obtain ⟨q, hq, rfl⟩ := List.mem_map.mp hb'
+    rw [(zip_tmOf_fields 0 cs q hq).1]
+    exact (wfChanges_mem hwf (List.of_mem_zip hq).1).bpm_pos
+  have hf : ∀ o ∈ o8, tempoOfObj exbpms true o = some (g' o) := by
+    intro o ho
+    have ho' := hp8.mem_iff.mp ho
+    obtain ⟨p, hpm, rfl⟩ := List.mem_map.mp ho'
+    have hb := (zipIdxFrom_mem _ 1 p hpm).2.2
+    have hlook := hex p hpm
+    rw [hdec p.2 hb] at hlook
+    have hbp := hpos p.2 hb
+    have hnle : ¬ p.2.bpm ≤ 0 := not_le.mpr hbp
+    simp only [tempoOfObj, if_true, hlook, Option.bind_some, hnle, if_false, g', Option.getD_some]
+  have ht8 : (o8.map g').Perm cs := by
+    refine (hp8.map g').trans ?_
+    rw [List.map_map]
+    have hG := posFn_own cs hwf hs
+    have hrc := rows_changes_perm 0 cs hwf c.bpms hp (posFn cs) hG
+    refine (List.Perm.of_eq ?_).trans hrc
+    have : c.bpms.map (fun b => (⟨b.bpm, b.met, { posFn cs b.offset with met := some b.met }⟩ : BcSnap)) =
+        ((zipIdxFrom 1 c.bpms).map (·.2)).map (fun b => (⟨b.bpm, b.met, { posFn cs b.offset with met := some b.met }⟩ : BcSnap)) := by
+      rw [zipIdxFrom_map_snd]
+    rw [this, List.map_map]
+    apply List.map_congr_left
+    intro p hpm
+    have hb := (zipIdxFrom_mem _ 1 p hpm).2.2
+    have hlook := hex p hpm
+    rw [hdec p.2 hb] at hlook
+    have hmet : p.2.met = 4 := by rw [hok.met p.2 hb]; decide +kernel
+    simp only [Function.comp, g', hlook, Option.getD_some, hmet, posOf]
+  have hstrict : strictSnaps (sortBcSnap cs) = true := by rw [sortBcSnap_eq_self hsorted]; exact hs
+  have hsort : sortBcSnap (o8.map g') = cs := by
+    rw [sortBcSnap_eq_of_perm ht8 hstrict, sortBcSnap_eq_self hsorted]
+  unfold denoteTempo
+  simp only [h3, h8, ho3, List.map_nil, allSome, allSome_congr _ g' o8 hf, List.nil_append, strictAscBc, hsort, hs, if_true]
+
+/-! ### the assembled statement -/
+
+theorem bpms_pos (cs : List BcSnap) (hwf : wfChanges cs = true) (rows : List BcOff) (hp : rows.Perm (tmOf 0 cs)) :
+    ∀ b ∈ rows, 0 < b.bpm := by
+  intro b hb
+  have hb' := hp.mem_iff.mp hb
+  have hz2 : (cs.zip (tmOf 0 cs)).map (·.2) = tmOf 0 cs := List.map_snd_zip (by rw [tmOf_length])
+  rw [← hz2] at hb'
+  obtain ⟨q, hq, rfl⟩ := List.mem_map.mp hb'
+  rw [(zip_tmOf_fields 0 cs q hq).1]
+  exact (wfChanges_mem hwf (List.of_mem_zip hq).1).bpm_pos
+
+/-- **`bms_write_read`: the written file denotes the in-memory chart.**
+
+`cs` — a tempo list in C05's domain: well-formed 4/4 tempo points, pairwise different positions in ascending order,
+the first at measure 0 beat 0, grid-compatible on the shipped grid of 96 (tempo points on measure lines always are);
+`c` — a chart whose tempo rows are, in ANY order, what is stored for `cs` with the first tempo point at time 0
+(`hp : c.bpms.Perm (tmOf 0 cs)` — ¬D35), with columns of the layout and times at or after the first tempo point (`hok`); `lay` a well-formed layout (`LayoutOK`; the time-signature channel is
+none of its lanes and not the tempo channel: `hts`).  Under the named hypotheses
+* `hdec` — every tempo is a three-decimal number (¬D06),
+* `hR` — the rows the writer builds are renderable and collision-free: measures 000–999 (¬D36), no two objects on one
+  (channel, slot) (the property's own precondition), two-character base-36 channels and ids (normalised positions and
+  measure ≥ 0 are not assumptions: `rows_normalised`),
+* `hitems`/`hasc` — on every lane the hits and holds, taken in time order, follow one another: nothing of the lane
+  starts inside a hold (¬D37), and sample ids differ from the `#LNOBJ` id and from `00` (`hv`),
+* `hH` — header domain (`HeaderOK`),
+the writer succeeds (`write … = ok lines`), the file has a by-the-book meaning `d` (`denote lay lines = some d`), and
+* `d.tempo` is the header tempo of the first tempo ROW (in force for no time at all) followed by exactly `cs`;
+* on every lane, in the layout's lane order, `d` has exactly one hit per in-memory hit and one hold per in-memory hold
+  (head, tail), with the sample the file's `#WAV` table gives the written id, at the positions `posFn cs` of their
+  times (`d.shits`, `d.sholds`; `d.hits`/`d.holds` are these at the times `timeAt 0 d.tempo`);
+* the by-the-book time of every such position is the in-memory time — exactly when that time lies on the snap grid of
+  its tempo segment, and within 1/192 beat (at the tempo in force) otherwise.
+
+Assembled from `writeCells_eq`/`cells_ok` (the writer's cells), `written_file_objects` (lexer + `#mmmcc:` lines +
+header lines, per channel, as a permutation), `written_header_read` (`_read_file_header` on the written header),
+`written_tempo_denotes` (tempo objects, any row order), `written_lane_denotes` (lanes: `positions_strict` from
+monotone snapping, `written_lane_sorted`, `pairLane_atoms`), `posFn_time` (K1 as run: `write_positions`). -/
+theorem bms_write_read (cs : List BcSnap) (hwf : wfChanges cs = true) (hs : strictSnaps cs = true)
+    (h0 : firstAtZero cs = true) (hgc : gridCompatible (grid defaultMaxDiv) cs = true) (hm : metronomeOk cs = true)
+    (lay : Layout) (hlay : LayoutOK lay)
+    (hts : lay.exbpmCh ≠ lay.timeSig ∧ ∀ lane ∈ lay.lanes, lane.1 ≠ lay.timeSig)
+    (dflt : Bytes) (c : WChart) (hp : c.bpms.Perm (tmOf 0 cs)) (hok : BmsOk cs lay c)
+    (hR : RowsOK (bmsNoteRows cs lay dflt c ++ bmsTempoRows cs lay c))
+    (hv : ∀ r ∈ bmsNoteRows cs lay dflt c, r.value ≠ ['0', '0'])
+    (hH : HeaderOK c) (hdec : ∀ b ∈ c.bpms, roundDec 3 b.bpm = b.bpm)
+    (hl : List Bytes) (hhdr : writeHeader c = .ok hl)
+    (items : Bytes × Nat → List TAtom)
+    (hitems : ∀ lane ∈ lay.lanes, (items lane).Perm (laneItems c dflt lane.2) ∧ (∀ a ∈ items lane, a.idOk c.lnEnd))
+    (hasc : ∀ lane ∈ lay.lanes, ((items lane).flatMap TAtom.times).Pairwise (fun a b => a ≤ b)) :
+    ∃ lines d b0, write defaultGrid lay dflt c = .ok lines ∧ denote lay lines = some d ∧
+      c.bpms.head? = some b0 ∧ d.tempo = ⟨b0.bpm, 4, ⟨0, 0, some 4⟩⟩ :: cs ∧
+      d.shits = lay.lanes.flatMap (fun lane => ((items lane).map (TAtom.toAtom (posFn cs) c.lnEnd)).flatMap
+        (Atom.hits (fun id => (dictGet? d.header.samples id).getD []) lane.2)) ∧
+      d.sholds = lay.lanes.flatMap (fun lane => ((items lane).map (TAtom.toAtom (posFn cs) c.lnEnd)).flatMap
+        (Atom.holds (fun id => (dictGet? d.header.samples id).getD []) lane.2)) ∧
+      d.hits = d.shits.map (fun h => ⟨h.col, h.sample, timeAt 0 d.tempo h.snap⟩) ∧
+      d.holds = d.sholds.map (fun h => ⟨h.col, h.sample, timeAt 0 d.tempo h.head,
+        timeAt 0 d.tempo h.tail - timeAt 0 d.tempo h.head⟩) ∧
+      ∀ lane ∈ lay.lanes, ∀ a ∈ items lane, ∀ t ∈ a.times,
+        rabs (timeAt 0 d.tempo (posOf (posFn cs t)) - t) ≤ 1 / 192 * activeBeatLen 0 cs t ∧
+        (OnGridAt (grid defaultMaxDiv) 0 cs t → timeAt 0 d.tempo (posOf (posFn cs t)) = t) := by
+  have hsorted := sortedSnaps_of_strict hs
+  obtain ⟨hcells, _⟩ := writeCells_eq cs hwf hs h0 hgc hm lay dflt c hp hok
+  -- the file
+  have hwrite : write defaultGrid lay dflt c =
+      .ok (hl ++ [[]] ++ linesOfCells (cellsOfRows (bmsNoteRows cs lay dflt c ++ bmsTempoRows cs lay c))) := by
+    simp only [write, writeNotes, hhdr, hcells, bind, Except.bind]
+  have hmisc : ∀ kv ∈ c.misc, ∃ a r, kv.1 = a :: r ∧ isDigit a = false ∧ isWs a = false := by
+    intro kv hkv
+    obtain ⟨a, r, e, hd, hw⟩ := (hH.misc kv hkv).1
+    exact ⟨a, r, e, hd, hw a (by simp)⟩
+  obtain ⟨H, notes, hparse, hHfold, hwfN, hperm⟩ :=
+    written_file_objects _ hR hl (writeHeader_headerLike c hl hhdr hmisc)
+  obtain ⟨hLN, b0, hdr, hhead, hread, hbpm0, hexb⟩ := written_header_read c hH hl hhdr H hHfold
+  -- well-formed data lines, none on the time-signature channel
+  have hnote := noteRows_channel cs lay dflt c hok
+  have hlines : linesOk lay.timeSig notes := by
+    intro d hd
+    obtain ⟨h1, h2, r, hr, hrc⟩ := hwfN d hd
+    refine ⟨h1, h2, ?_⟩
+    rw [hrc]
+    rcases List.mem_append.mp hr with hr | hr
+    · obtain ⟨col, hmem⟩ := hnote r hr
+      exact hts.2 _ hmem
+    · simp only [bmsTempoRows, List.mem_map] at hr
+      obtain ⟨p, _, rfl⟩ := hr
+      exact hts.1
+  have hco := channelObjs_eq lay.timeSig notes hlines
+  -- guards
+  have hb0mem : b0 ∈ c.bpms := by
+    cases hb : c.bpms with
+    | nil => rw [hb] at hhead; cases hhead
+    | cons x t => rw [hb] at hhead; simp only [List.head?_cons, Option.some.injEq] at hhead; rw [← hhead]; simp
+  have hb0pos : 0 < hdr.bpm0 := by rw [hbpm0]; exact bpms_pos cs hwf c.bpms hp b0 hb0mem
+  have hguards : guardsOk lay ⟨H, notes⟩ hdr = true := by
+    simp only [guardsOk, Bool.and_eq_true, Bool.not_eq_true', decide_eq_false_iff_not, not_le, List.any_eq_false,
+      decide_eq_true_eq, Bool.or_eq_true, Option.isNone_iff_eq_none, not_or]
+    refine ⟨⟨hb0pos, ?_⟩, ?_⟩
+    · intro d hd; exact (hlines d hd).2.2
+    · intro d hd
+      obtain ⟨⟨m, hm'⟩, ⟨ps, hps⟩, _⟩ := hlines d hd
+      simp [hm', hps]
+  -- tempo
+  have hex : ∀ p ∈ zipIdxFrom 1 c.bpms, dictGet? hdr.exbpms (base36 p.1) = some (roundDec 3 p.2.bpm) := by
+    rw [hexb]; exact (exbpm_table_readback c.bpms hH.nbpm hH.bpmpos).2
+  have htempo := written_tempo_denotes cs hwf hs h0 hgc hm lay hlay dflt c hp hok hdec hH.nbpm hdr.exbpms hex hdr.bpm0
+    notes _ _ (hco lay.bpmCh) (hperm lay.bpmCh) (hco lay.exbpmCh) (hperm lay.exbpmCh)
+  -- lanes
+  obtain ⟨so, hso⟩ : ∃ so : Bytes → Bytes, so = fun id => (dictGet? hdr.samples id).getD [] := ⟨_, rfl⟩
+  have hlane : ∀ lane ∈ lay.lanes, denoteLane (some c.lnEnd) so notes lane =
+      some (((items lane).map (TAtom.toAtom (posFn cs) c.lnEnd)).flatMap (Atom.hits so lane.2),
+            ((items lane).map (TAtom.toAtom (posFn cs) c.lnEnd)).flatMap (Atom.holds so lane.2)) := by
+    intro lane hlm
+    exact (written_lane_denotes cs hwf hs h0 hgc hm lay hlay dflt c hok hR hv lane hlm (items lane)
+      (hitems lane hlm).1 (hitems lane hlm).2 (hasc lane hlm) so notes _ (hco lane.1) (hperm lane.1)).1
+  have hall := allSome_congr (denoteLane (some c.lnEnd) so notes)
+    (fun lane => (((items lane).map (TAtom.toAtom (posFn cs) c.lnEnd)).flatMap (Atom.hits so lane.2),
+                  ((items lane).map (TAtom.toAtom (posFn cs) c.lnEnd)).flatMap (Atom.holds so lane.2))) lay.lanes hlane
+  have hbody : denoteBody lay ⟨H, notes⟩ hdr = some (⟨hdr.bpm0, 4, ⟨0, 0, some 4⟩⟩ :: cs,
+      (lay.lanes.map (fun lane => (((items lane).map (TAtom.toAtom (posFn cs) c.lnEnd)).flatMap (Atom.hits so lane.2),
+        ((items lane).map (TAtom.toAtom (posFn cs) c.lnEnd)).flatMap (Atom.holds so lane.2)))).flatMap (·.1),
+      (lay.lanes.map (fun lane => (((items lane).map (TAtom.toAtom (posFn cs) c.lnEnd)).flatMap (Atom.hits so lane.2),
+        ((items lane).map (TAtom.toAtom (posFn cs) c.lnEnd)).flatMap (Atom.holds so lane.2)))).flatMap (·.2)) := by
+    unfold denoteBody
+    simp only [hguards, if_true, htempo, hLN, ← hso, hall]
+  obtain ⟨S, hS⟩ : ∃ S, S = (lay.lanes.map (fun lane => (((items lane).map (TAtom.toAtom (posFn cs) c.lnEnd)).flatMap (Atom.hits so lane.2),
+        ((items lane).map (TAtom.toAtom (posFn cs) c.lnEnd)).flatMap (Atom.holds so lane.2)))).flatMap (·.1) := ⟨_, rfl⟩
+  obtain ⟨L, hL⟩ : ∃ L, L = (lay.lanes.map (fun lane => (((items lane).map (TAtom.toAtom (posFn cs) c.lnEnd)).flatMap (Atom.hits so lane.2),
+        ((items lane).map (TAtom.toAtom (posFn cs) c.lnEnd)).flatMap (Atom.holds so lane.2)))).flatMap (·.2) := ⟨_, rfl⟩
+  rw [← hS, ← hL] at hbody
+  have hden : denote lay (hl ++ [[]] ++ linesOfCells (cellsOfRows (bmsNoteRows cs lay dflt c ++ bmsTempoRows cs lay c))) =
+      some { header := hdr, tempo := ⟨hdr.bpm0, 4, ⟨0, 0, some 4⟩⟩ :: cs, shits := S, sholds := L,
+             hits := S.map (fun h => ⟨h.col, h.sample, timeAt 0 (⟨hdr.bpm0, 4, ⟨0, 0, some 4⟩⟩ :: cs) h.snap⟩),
+             holds := L.map (fun h => ⟨h.col, h.sample, timeAt 0 (⟨hdr.bpm0, 4, ⟨0, 0, some 4⟩⟩ :: cs) h.head,
+               timeAt 0 (⟨hdr.bpm0, 4, ⟨0, 0, some 4⟩⟩ :: cs) h.tail - timeAt 0 (⟨hdr.bpm0, 4, ⟨0, 0, some 4⟩⟩ :: cs) h.head⟩) } := by
+    unfold denote
+    simp only [hparse, hread, hbody]
+  refine ⟨_, _, b0, hwrite, hden, hhead, ?_⟩
+  · simp only []
+    refine ⟨by rw [hbpm0], ?_, ?_, trivial, trivial, ?_⟩
+    · rw [hS, List.flatMap_map, ← hso]
+    · rw [hL, List.flatMap_map, ← hso]
+    · intro lane hlm a ha t ht
+      have hts' : 0 ≤ t := by
+        have ha' := (hitems lane hlm).1.mem_iff.mp ha
+        simp only [laneItems, List.mem_append, List.mem_map, List.mem_filter] at ha'
+        rcases ha' with ⟨h, ⟨hh, _⟩, rfl⟩ | ⟨h, ⟨hh, _⟩, rfl⟩
+        · simp only [TAtom.times, List.mem_singleton] at ht
+          rw [ht]; exact hok.times.1 h hh
+        · simp only [TAtom.times, List.mem_cons, List.not_mem_nil, or_false] at ht
+          rcases ht with e | e
+          · rw [e]; exact (hok.times.2.1 h hh).1
+          · rw [e]; exact (hok.times.2.1 h hh).2
+      have hq := posFn_time cs hwf hsorted h0 hgc hm t hts'
+      obtain ⟨F, hF, hFt⟩ := write_positions cs hwf hsorted h0 hgc hm [t] (by simpa using hts')
+      have hpw := (snaps_pointwise cs hwf hsorted h0 hgc hm [t] (by simpa using hts')).1
+      rw [hF] at hpw
+      have eF : F t = posFn cs t := by simpa using hpw
+      have hqok := (hFt t (by simp)).1
+      rw [eF] at hqok
+      cases hcs : cs with
+      | nil => rw [hcs] at h0; simp [firstAtZero] at h0
+      | cons c1 rest =>
+        rw [hcs] at hqok h0
+        simp only [queryOk, Bool.and_eq_true, decide_eq_true_eq] at hqok
+        simp only [firstAtZero, Bool.and_eq_true, decide_eq_true_eq] at h0
+        have hle : c1.snap.le (posOf (posFn (c1 :: rest) t)) = true := by
+          have e : c1.snap.le (posOf (posFn (c1 :: rest) t)) = c1.snap.le (posFn (c1 :: rest) t) := rfl
+          rw [e]; exact hqok.1
+        have hdrop := timeAt_drop_zero ⟨hdr.bpm0, 4, ⟨0, 0, some 4⟩⟩ c1 rest (posOf (posFn (c1 :: rest) t))
+          ⟨rfl, rfl⟩ h0 hle
+        rw [hcs] at hq
+        rw [hdrop]
+        exact hq
+
+/-! ### the hypotheses are satisfiable; the generated layouts -/
+
+/-- on the five generated layouts the time-signature channel is neither a lane nor the tempo channel -/
+theorem layouts_timeSig : ∀ n ∈ Generated.BMS.layoutNames, ∀ l, layoutOf n = some l →
+    l.exbpmCh ≠ l.timeSig ∧ ∀ lane ∈ l.lanes, lane.1 ≠ l.timeSig := by
   decide +kernel
 
-/-- a written chart read back by the book (grid of 4): header, LNOBJ pair, off-measure objects, two tempo points -/
-example :
-    let chart : WChart := { title := "t".toList, artist := "a".toList, version := "1".toList, lnEnd := "ZZ".toList,
-                            samples := [("0A".toList, "k.wav".toList)], misc := [],
-                            bpms := [⟨120, 4, 0⟩, ⟨60, 4, 2000⟩],
-                            hits := [⟨1, "k.wav".toList, 250⟩, ⟨2, [], 3000⟩], holds := [⟨3, [], 500, 2500⟩] }
-    (match layoutOf "BME", bookLayout "BME" with
-     | some l, some b =>
-       (match write (grid 4).toArray l "01".toList chart with
-        | .ok lines =>
-          (match denote b lines with
-           | some d => decide (d.hits = [⟨1, "k.wav".toList, 250⟩, ⟨2, [], 3000⟩] ∧ d.holds = [⟨3, [], 500, 2000⟩]) &&
-                       lines.all (fun l => !(isDataLine l) || lineValid l)
-           | none => false)
-        | .error _ => false)
-     | _, _ => false) = true := by
+def wrExCs : List BcSnap := [⟨120,4,⟨0,0,some 4⟩⟩, ⟨60,4,⟨1,0,some 4⟩⟩]
+def wrExLay : Layout := (layoutOf "PMS_5B").getD ⟨[], [], [], []⟩
+def wrExChart : WChart :=
+  { title := "t".toList, artist := "a".toList, version := "1".toList, lnEnd := "ZZ".toList, samples := [], misc := [],
+    bpms := [⟨60, 4, 2000⟩, ⟨120, 4, 0⟩], hits := [⟨0, [], 0⟩], holds := [⟨1, [], 0, 2000⟩] }
+
+theorem wrExLay_eq : layoutOf "PMS_5B" = some wrExLay := by decide +kernel
+theorem wrExCs_ok : wfChanges wrExCs = true ∧ strictSnaps wrExCs = true ∧ firstAtZero wrExCs = true ∧ metronomeOk wrExCs = true := by decide +kernel
+theorem wrExCs_tm : tmOf 0 wrExCs = [⟨120, 4, 0⟩, ⟨60, 4, 2000⟩] := by decide +kernel
+theorem wrExCs_gc : gridCompatible (grid defaultMaxDiv) wrExCs = true := by
+  have hg : GridOK defaultGrid := gridOK_grid (by decide)
+  have h0 : frac (snapDist (⟨0,0,some 4⟩ : Snap) ⟨1,0,some 4⟩ 4) = 0 := by decide +kernel
+  have hz : (0 : Rat) ∈ grid defaultMaxDiv := by
+    have := hg.zero_mem
+    simpa [defaultGrid] using this
+  simp only [wrExCs, gridCompatible, h0, Bool.and_true, List.contains_iff_mem]
+  exact hz
+theorem wrExPos : posFn wrExCs 0 = ⟨0,0,some 4⟩ ∧ posFn wrExCs 2000 = ⟨1,0,some 4⟩ := by
+  have h := posFn_own wrExCs wrExCs_ok.1 wrExCs_ok.2.1
+  rw [wrExCs_tm] at h
+  exact ⟨h (⟨120,4,⟨0,0,some 4⟩⟩, ⟨120,4,0⟩) (by simp [wrExCs]), h (⟨60,4,⟨1,0,some 4⟩⟩, ⟨60,4,2000⟩) (by simp [wrExCs])⟩
+
+def wrExRows : List WRow :=
+  [⟨⟨0,0,some 4⟩, "13".toList, "01".toList⟩, ⟨⟨0,0,some 4⟩, "14".toList, "01".toList⟩, ⟨⟨1,0,some 4⟩, "14".toList, "ZZ".toList⟩,
+   ⟨⟨1,0,some 4⟩, "08".toList, "01".toList⟩, ⟨⟨0,0,some 4⟩, "08".toList, "02".toList⟩]
+
+theorem wrExRows_eq : bmsNoteRows wrExCs wrExLay "01".toList wrExChart ++ bmsTempoRows wrExCs wrExLay wrExChart = wrExRows := by
+  simp only [bmsNoteRows, bmsTempoRows, wrExChart, List.map, zipIdxFrom, wrExPos.1, wrExPos.2]
   decide +kernel
+
+theorem wrExRowsOK : RowsOK wrExRows where
+  meas := by decide +kernel
+  norm := by decide +kernel
+  chan := by
+    intro r hr
+    simp only [wrExRows, List.mem_cons, List.not_mem_nil, or_false] at hr
+    rcases hr with rfl | rfl | rfl | rfl | rfl <;> exact ⟨_, _, rfl, by decide, by decide⟩
+  value := by decide +kernel
+  nocoll := by decide +kernel
+
+/-- **The hypotheses of `bms_write_read` are satisfiable**: a chart with two tempo rows in reverse order, a hit and a
+hold, on the `PMS_5B` layout — the theorem applies and gives a written file with its by-the-book meaning. -/
+theorem bms_write_read_nonvacuous :
+    ∃ lines d, write defaultGrid wrExLay "01".toList wrExChart = .ok lines ∧ denote wrExLay lines = some d ∧
+      d.tempo = ⟨60, 4, ⟨0, 0, some 4⟩⟩ :: wrExCs := by
+  have hlay := layouts_ok "PMS_5B" (by decide) wrExLay wrExLay_eq
+  have hts := layouts_timeSig "PMS_5B" (by decide) wrExLay wrExLay_eq
+  have hp : wrExChart.bpms.Perm (tmOf 0 wrExCs) := by rw [wrExCs_tm]; exact List.Perm.swap _ _ _
+  have hok : BmsOk wrExCs wrExLay wrExChart := by
+    refine ⟨by decide +kernel, by decide +kernel, by decide +kernel, by decide +kernel⟩
+  have hR : RowsOK (bmsNoteRows wrExCs wrExLay "01".toList wrExChart ++ bmsTempoRows wrExCs wrExLay wrExChart) := by
+    rw [wrExRows_eq]; exact wrExRowsOK
+  have hv : ∀ r ∈ bmsNoteRows wrExCs wrExLay "01".toList wrExChart, r.value ≠ ['0', '0'] := by
+    intro r hr
+    have : r ∈ wrExRows := by rw [← wrExRows_eq]; exact List.mem_append_left _ hr
+    have hall : ∀ r ∈ wrExRows, r.value ≠ ['0', '0'] := by decide +kernel
+    exact hall r this
+  have hH : HeaderOK wrExChart :=
+    ⟨by intro kv hkv; simp [wrExChart] at hkv, by intro kv hkv; simp [wrExChart] at hkv, by decide +kernel, by decide +kernel, by decide +kernel⟩
+  have hdec : ∀ b ∈ wrExChart.bpms, roundDec 3 b.bpm = b.bpm := by decide +kernel
+  obtain ⟨hl, hhdr⟩ : ∃ hl, writeHeader wrExChart = .ok hl := by
+    have h : (writeHeader wrExChart).toOption.isSome = true := by decide +kernel
+    cases hw : writeHeader wrExChart with
+    | ok hl => exact ⟨hl, rfl⟩
+    | error e => rw [hw] at h; cases h
+  have hitems : ∀ lane ∈ wrExLay.lanes, (laneItems wrExChart "01".toList lane.2).Perm (laneItems wrExChart "01".toList lane.2) ∧
+      (∀ a ∈ laneItems wrExChart "01".toList lane.2, a.idOk wrExChart.lnEnd) := by
+    intro lane _
+    refine ⟨List.Perm.refl _, ?_⟩
+    intro a ha
+    simp only [laneItems, List.mem_append, List.mem_map] at ha
+    rcases ha with ⟨h, _, rfl⟩ | ⟨h, _, rfl⟩
+    · simp only [TAtom.idOk, wrExChart, sampleId, List.reverse_nil, List.find?_nil, Option.map_none, Option.getD_none]; decide
+    · simp only [TAtom.idOk, wrExChart, sampleId, List.reverse_nil, List.find?_nil, Option.map_none, Option.getD_none]; decide
+  have hasc : ∀ lane ∈ wrExLay.lanes,
+      ((laneItems wrExChart "01".toList lane.2).flatMap TAtom.times).Pairwise (fun a b => a ≤ b) := by decide +kernel
+  obtain ⟨lines, d, b0, hw, hd, hhead, htempo, _⟩ :=
+    bms_write_read wrExCs wrExCs_ok.1 wrExCs_ok.2.1 wrExCs_ok.2.2.1 wrExCs_gc wrExCs_ok.2.2.2 wrExLay hlay hts "01".toList wrExChart hp hok
+      hR hv hH hdec hl hhdr (fun lane => laneItems wrExChart "01".toList lane.2) hitems hasc
+  refine ⟨lines, d, hw, hd, ?_⟩
+  have : b0 = ⟨60, 4, 2000⟩ := by
+    simp only [wrExChart, List.head?_cons, Option.some.injEq] at hhead
+    exact hhead.symm
+  rw [htempo, this]
+
+/-! ### what `RowsOK` asks that is not an assumption about the chart -/
+
+/-- every position the writer computes is normalised: 4/4, beat in [0, 4), measure ≥ 0 -/
+theorem posFn_normal (cs : List BcSnap) (hwf : wfChanges cs = true) (hs : sortedSnaps cs = true)
+    (h0 : firstAtZero cs = true) (hgc : gridCompatible (grid defaultMaxDiv) cs = true) (hm : metronomeOk cs = true)
+    (hm4 : ∀ c ∈ cs, c.met = 4) (t : Rat) (ht : 0 ≤ t) :
+    (posFn cs t).met = some 4 ∧ 0 ≤ (posFn cs t).beat ∧ (posFn cs t).beat < 4 ∧ 0 ≤ (posFn cs t).measure := by
+  have hg : GridOK defaultGrid := gridOK_grid (by decide)
+  have hne : cs ≠ [] := by intro e; subst e; simp [firstAtZero] at h0
+  have hmet := posFn_met cs hwf hs hgc hm hm4 t ht hne
+  cases cs with
+  | nil => exact absurd rfl hne
+  | cons c rest =>
+    obtain ⟨S, hS, hb0, hb4, htot⟩ := snapAtAux_total_ge hg 4 rest 0 c t hwf hs hm4 ht
+    have hFt : posFn (c :: rest) t = S := by simp [posFn, hS, Except.toOption]
+    rw [hFt] at hmet ⊢
+    refine ⟨hmet, hb0, hb4, ?_⟩
+    simp only [firstAtZero, Bool.and_eq_true, decide_eq_true_eq] at h0
+    simp only [snapTotal, h0.1, h0.2] at htot
+    have : (-1 : Rat) < ((S.measure : Int) : Rat) := by
+      have : (0 : Rat) ≤ (S.measure : Rat) * 4 + S.beat := by simpa using htot
+      linarith
+    have : (-1 : Int) < S.measure := by exact_mod_cast this
+    omega
+
+/-- **`RowsOK.norm` and the lower bound in `RowsOK.meas` hold for every chart in the domain**: they are not
+assumptions of `bms_write_read`; what `RowsOK` really asks of the chart is `measure < 1000` (¬D36), the
+two-character channels and ids, and `nocoll` (no two objects on one slot: the property's precondition). -/
+theorem rows_normalised (cs : List BcSnap) (hwf : wfChanges cs = true) (hs : sortedSnaps cs = true)
+    (h0 : firstAtZero cs = true) (hgc : gridCompatible (grid defaultMaxDiv) cs = true) (hm : metronomeOk cs = true)
+    (lay : Layout) (dflt : Bytes) (c : WChart) (hok : BmsOk cs lay c) :
+    ∀ r ∈ bmsNoteRows cs lay dflt c ++ bmsTempoRows cs lay c,
+      (r.snap.met = some 4 ∧ 0 ≤ r.snap.beat ∧ r.snap.beat < 4) ∧ 0 ≤ r.snap.measure := by
+  have N := fun t ht => posFn_normal cs hwf hs h0 hgc hm hok.met4 t ht
+  intro r hr
+  simp only [bmsNoteRows, bmsTempoRows, List.mem_append, List.mem_map] at hr
+  rcases hr with ((⟨h, hh, rfl⟩ | ⟨h, hh, rfl⟩) | ⟨h, hh, rfl⟩) | ⟨p, hpm, rfl⟩
+  · have := N _ (hok.times.1 h hh); exact ⟨⟨this.1, this.2.1, this.2.2.1⟩, this.2.2.2⟩
+  · have := N _ (hok.times.2.1 h hh).1; exact ⟨⟨this.1, this.2.1, this.2.2.1⟩, this.2.2.2⟩
+  · have := N _ (hok.times.2.1 h hh).2; exact ⟨⟨this.1, this.2.1, this.2.2.1⟩, this.2.2.2⟩
+  · have hp2 : p.2 ∈ c.bpms.map (fun b => posFn cs b.offset) := by
+      have := List.mem_map_of_mem (f := (·.2)) hpm
+      rwa [zipIdxFrom_map_snd] at this
+    obtain ⟨b, hb, e⟩ := List.mem_map.mp hp2
+    simp only [← e]
+    have := N _ (hok.times.2.2 b hb); exact ⟨⟨this.1, this.2.1, this.2.2.1⟩, this.2.2.2⟩
 
 end Reamber.BMS
